@@ -1,1367 +1,10 @@
-import ParryModel.C04.Lemmas
+import ParryModel.C04.Theorems1
+import ParryModel.C04.Theorems2
 /-!
-# C04 property theorems: closed-form ray casts, for every linearly ordered field and **every non-zero
-direction (no unit-length assumption)**.  Vocabulary (`FirstHit`, `FirstHitU`, `ExitHit`, `BallAt`, `SphereAt`,
-`rayPt`, …) is defined and explained in `C04/Lemmas.lean`.
+# C04 property theorems (umbrella file)
+
+* `Theorems1.lean` — closed-form casts: ball, half-space, 3-D triangle, Aabb / cuboid (time-only and with normals,
+  `clip_aabb_line`), 2-D segment, `toi_units`, posed = local ∘ inverse transform.
+* `Theorems2.lean` — composite shapes: the BVH pruning test / node weight `SimdAabb::cast_local_ray`, the per-cell step of
+  the 3-D heightfield cast (nearer of the two triangles of a cell), soundness of the whole heightfield cast.
 -/
-namespace C04
-open Model
-
-variable {K : Type} [Field K] [LinearOrder K] [IsStrictOrderedRing K] (sq : K → K)
-
-/-- A first hit is unique: two results satisfying `FirstHit` for the same data coincide. -/
-theorem firstHit_unique {α : Type} (S : α → Prop) (pt : K → α) (max : K) (r₁ r₂ : Option K)
-    (h₁ : FirstHit S pt max r₁) (h₂ : FirstHit S pt max r₂) : r₁ = r₂ := by
-  cases r₁ with
-  | none =>
-    cases r₂ with
-    | none => rfl
-    | some t => exact absurd h₂.2.2.1 (h₁ t h₂.1 h₂.2.1)
-  | some t₁ =>
-    cases r₂ with
-    | none => exact absurd h₁.2.2.1 (h₂ t₁ h₁.1 h₁.2.1)
-    | some t₂ =>
-      obtain ⟨a1, b1, c1, d1⟩ := h₁
-      obtain ⟨a2, b2, c2, d2⟩ := h₂
-      rcases lt_trichotomy t₁ t₂ with h | h | h
-      · exact absurd c1 (d2 t₁ a1 h)
-      · rw [h]
-      · exact absurd c2 (d1 t₂ a2 h)
-
-/-- **toi is expressed in units of the direction** (generic part): re-parametrising the curve by `s ↦ pt (l·s)`
-(i.e. casting along `l·d`), `l > 0`, with `max/l`, has first hit `t/l`. -/
-theorem firstHit_scale {α : Type} (S : α → Prop) (pt : K → α) (max l : K) (hl : 0 < l) (r : Option K)
-    (h : FirstHit S pt max r) : FirstHit S (fun s => pt (l * s)) (max / l) (r.map (· / l)) := by
-  cases r with
-  | none =>
-    intro s hs hsm
-    exact h (l * s) (mul_nonneg hl.le hs) (by rw [le_div_iff₀ hl] at hsm; linarith)
-  | some t =>
-    obtain ⟨a1, b1, c1, d1⟩ := h
-    refine ⟨div_nonneg a1 hl.le, (div_le_div_iff_of_pos_right hl).2 b1, ?_, ?_⟩
-    · show S (pt (l * (t / l))); rw [mul_div_cancel₀ _ (ne_of_gt hl)]; exact c1
-    · intro s hs hst
-      exact d1 (l * s) (mul_nonneg hl.le hs) (by rw [lt_div_iff₀ hl] at hst; linarith)
-
-/-- `Real.sqrt` is a lawful square root: the `LawfulSqrt` hypothesis of the theorems below is satisfiable. -/
-theorem real_lawfulSqrt : LawfulSqrt Real.sqrt := ⟨fun x _ => Real.sqrt_nonneg x, fun _ h => Real.mul_self_sqrt h⟩
-
-/-! ## Ball (`ray_toi_with_ball`, `Ball::cast_local_ray*`) -/
-
-/-- **Ball, `inside` flag.** For every non-zero direction, the flag returned by `ray_toi_with_ball` is exactly
-membership of the ray origin in the (closed) ball. -/
-theorem ball_inside_flag_iff (hs : LawfulSqrt sq) (c : V3 K) (r : K) (ray : Ray3 K) (solid : Bool) :
-    letI := fieldNum K sq
-    0 < ray.d.normSq →
-    ((rayToiWithBall c r ray solid).1 = true ↔ BallAt sq c r ray.o) := by
-  intro ha
-  have h := (ball_core sq hs c r ray solid ha).1
-  rw [ballAt_iff]; simpa only [rayPt_zero] using h
-
-/-- **Ball, origin outside (either `solid` flag), non-unit direction.** When the origin is outside the ball, the result is the
-first hit of the ball on `[0,∞)`: `None` ⇒ no point of the ray is in the ball; `Some t` ⇒ `t > 0`, `o + t·d` is on the
-sphere and no earlier parameter is in the ball. -/
-theorem ball_outside_firstHit (hs : LawfulSqrt sq) (c : V3 K) (r : K) (ray : Ray3 K) (solid : Bool) :
-    letI := fieldNum K sq
-    0 < ray.d.normSq →
-    ¬ BallAt sq c r ray.o →
-    FirstHitU (BallAt sq c r) (rayPt sq ray) (rayToiWithBall c r ray solid).2 ∧
-    ∀ t, (rayToiWithBall c r ray solid).2 = some t → 0 < t ∧ SphereAt sq c r (rayPt sq ray t) := by
-  intro ha hout
-  have hf : (@rayToiWithBall K (fieldNum K sq) c r ray solid).1 = false := by
-    cases h : (@rayToiWithBall K (fieldNum K sq) c r ray solid).1 with
-    | false => rfl
-    | true => exact absurd ((ball_inside_flag_iff sq hs c r ray solid ha).1 h) hout
-  have h := (ball_core sq hs c r ray solid ha).2.1 hf
-  revert h
-  cases (@rayToiWithBall K (fieldNum K sq) c r ray solid).2 with
-  | none =>
-    intro h
-    exact ⟨fun s hs' hm => absurd ((ballAt_iff sq c r _).1 hm) (not_le.2 (h s hs')), fun t ht => by cases ht⟩
-  | some t =>
-    intro h
-    obtain ⟨h1, h2, _, h4⟩ := h
-    refine ⟨⟨h1.le, (ballAt_iff sq c r _).2 (le_of_eq h2), fun s hs' hst hm => absurd ((ballAt_iff sq c r _).1 hm) (not_le.2 (h4 s hs' hst))⟩, ?_⟩
-    intro t' ht'; cases ht'
-    exact ⟨h1, (sphereAt_iff sq c r _).2 h2⟩
-
-/-- **Ball, `solid = true`.** The result is the first hit of the solid ball on `[0,∞)`; in particular a ray that starts
-in the ball reports `toi = 0`. -/
-theorem ball_solid_firstHit (hs : LawfulSqrt sq) (c : V3 K) (r : K) (ray : Ray3 K) :
-    letI := fieldNum K sq
-    0 < ray.d.normSq →
-    FirstHitU (BallAt sq c r) (rayPt sq ray) (rayToiWithBall c r ray true).2 := by
-  intro ha
-  cases hfl : (@rayToiWithBall K (fieldNum K sq) c r ray true).1 with
-  | false => exact (ball_outside_firstHit sq hs c r ray true ha (fun hm => by have := (ball_inside_flag_iff sq hs c r ray true ha).2 hm; rw [hfl] at this; cases this)).1
-  | true =>
-    have h := (ball_core sq hs c r ray true ha).2.2.1 hfl rfl
-    rw [h]
-    refine ⟨le_refl _, ?_, fun s h1 h2 => absurd h2 (not_lt.2 h1)⟩
-    rw [rayPt_zero]; exact (ball_inside_flag_iff sq hs c r ray true ha).1 hfl
-
-/-- **Ball, `solid = false`, origin in the ball.** The reported time is the *exit*: the hit point is on the sphere, every
-parameter of `[0,t]` is in the ball, every later one is outside; if the origin is strictly inside, no parameter before
-`t` is on the sphere (so `t` is also the first hit of the hollow sphere). -/
-theorem ball_nonsolid_exit (hs : LawfulSqrt sq) (c : V3 K) (r : K) (ray : Ray3 K) :
-    letI := fieldNum K sq
-    0 < ray.d.normSq →
-    BallAt sq c r ray.o →
-    ∃ t, (rayToiWithBall c r ray false).2 = some t ∧ SphereAt sq c r (rayPt sq ray t) ∧
-      ExitHit (BallAt sq c r) (rayPt sq ray) t ∧
-      (¬ SphereAt sq c r ray.o → ∀ s, 0 ≤ s → s < t → ¬ SphereAt sq c r (rayPt sq ray s)) := by
-  intro ha hin
-  have hfl := (ball_inside_flag_iff sq hs c r ray false ha).2 hin
-  obtain ⟨t, h1, h2, h3, _, h5, h6, h7⟩ := (ball_core sq hs c r ray false ha).2.2.2 hfl rfl
-  refine ⟨t, h1, (sphereAt_iff sq c r _).2 h3, ⟨h2, fun s a b => (ballAt_iff sq c r _).2 (h5 s a b),
-    fun s a hm => absurd ((ballAt_iff sq c r _).1 hm) (not_le.2 (h7 s a))⟩, ?_⟩
-  intro hns s a b hsp
-  have h0 : @V3.normSq K (fieldNum K sq) (@V3.sub K (fieldNum K sq) (rayPt sq ray 0) c) - r * r < 0 := by
-    rw [rayPt_zero]
-    rcases lt_or_eq_of_le ((ballAt_iff sq c r _).1 hin) with h | h
-    · exact h
-    · exact absurd ((sphereAt_iff sq c r _).2 h) hns
-  exact absurd ((sphereAt_iff sq c r _).1 hsp) (ne_of_lt (h6 h0 s a b))
-
-
-/-- **`toi_units`, generic form.** If a caster returns the first hit of a set `S` both for `(o, d, max)` and for
-`(o, l·d, max/l)`, `l > 0`, then the second result is the first divided by `l` (and `None` ↔ `None`). -/
-theorem toi_units_of_firstHit (S : V3 K → Prop) (ray : Ray3 K) (l max : K) (hl : 0 < l) (r r' : Option K) :
-    letI := fieldNum K sq
-    FirstHit S (rayPt sq ray) max r → FirstHit S (rayPt sq ⟨ray.o, ray.d.smul l⟩) (max / l) r' →
-    r' = r.map (· / l) := by
-  intro h h'
-  have e : rayPt sq ⟨ray.o, @V3.smul K (fieldNum K sq) ray.d l⟩ = fun s => rayPt sq ray (l * s) := by
-    funext s; exact rayPt_scale sq ray l s
-  rw [e] at h'
-  exact firstHit_unique _ _ _ _ _ h' (firstHit_scale S (rayPt sq ray) max l hl r h)
-
-/-- the local ray of a posed cast is the world ray seen through the inverse pose: `pt_local(s) = m⁻¹ • pt_world(s)`
-(holds for every quaternion, unit or not: the rotation formula is linear) -/
-theorem rayPt_invTransform (m : Iso3 K) (ray : Ray3 K) (s : K) :
-    letI := fieldNum K sq
-    rayPt sq (ray.invTransform m) s = m.invAct (rayPt sq ray s) := by
-  simp only [rayPt, Ray3.pointAt, Ray3.invTransform, Iso3.invAct, Iso3.invRot, Iso3.rotQ, Iso3.qv, V3.add, V3.sub, V3.smul,
-    V3.cross, V3.neg, fieldNum_two]
-  congr 1 <;> ring
-
-
-/-- **Ball::cast_local_ray, solid.** For every non-zero (not necessarily unit) direction and every `max_toi`: the
-result is the first hit of the solid ball on `[0, max_toi]` — `Some t` ⇒ `0 ≤ t ≤ max_toi`, `o + t·d ∈ ball`, no earlier
-point in the ball; `None` ⇒ no point of the segment `[0,max_toi]` is in the ball. -/
-theorem ball_cast_solid_firstHit (hs : LawfulSqrt sq) (s : Ball K) (ray : Ray3 K) (max : K) :
-    letI := fieldNum K sq
-    0 < ray.d.normSq →
-    FirstHit (s.Mem3) (rayPt sq ray) max (s.castLocalRay ray max true) := by
-  intro ha
-  have h := firstHitU_filter _ _ max _ (ball_solid_firstHit sq hs (@V3.zero K (fieldNum K sq)) s.r ray ha)
-  have e : BallAt sq (@V3.zero K (fieldNum K sq)) s.r = @Ball.Mem3 K (fieldNum K sq) s := by
-    funext p; exact propext (ballAt_zero sq s.r p)
-  rw [e] at h; exact h
-
-/-- **Ball::cast_local_ray, origin outside (both `solid` flags).** Same statement; additionally a reported hit has `t > 0`
-and lies on the sphere. -/
-theorem ball_cast_outside_firstHit (hs : LawfulSqrt sq) (s : Ball K) (ray : Ray3 K) (max : K) (solid : Bool) :
-    letI := fieldNum K sq
-    0 < ray.d.normSq → ¬ s.Mem3 ray.o →
-    FirstHit (s.Mem3) (rayPt sq ray) max (s.castLocalRay ray max solid) ∧
-    ∀ t, s.castLocalRay ray max solid = some t → 0 < t ∧ SphereAt sq V3.zero s.r (rayPt sq ray t) := by
-  intro ha hout
-  have e : BallAt sq (@V3.zero K (fieldNum K sq)) s.r = @Ball.Mem3 K (fieldNum K sq) s := by
-    funext p; exact propext (ballAt_zero sq s.r p)
-  have hout' : ¬ BallAt sq (@V3.zero K (fieldNum K sq)) s.r ray.o := by rw [e]; exact hout
-  obtain ⟨h1, h2⟩ := ball_outside_firstHit sq hs (@V3.zero K (fieldNum K sq)) s.r ray solid ha hout'
-  have h := firstHitU_filter _ _ max _ h1
-  rw [e] at h
-  refine ⟨h, fun t ht => h2 t ?_⟩
-  simp only [Ball.castLocalRay] at ht
-  exact (Option.filter_eq_some_iff.1 ht).1
-
-/-- **Ball::cast_local_ray, `solid = false`, origin in the ball.** `Some t` ⇒ `t ≤ max_toi`, the hit point is on the
-sphere and `t` is the exit parameter (`[0,t]` inside, everything later outside). `None` ⇒ the whole segment `[0,max_toi]`
-stays in the ball and — if the origin is not itself on the sphere — never touches the sphere. -/
-theorem ball_cast_nonsolid_inside (hs : LawfulSqrt sq) (s : Ball K) (ray : Ray3 K) (max : K) :
-    letI := fieldNum K sq
-    0 < ray.d.normSq → s.Mem3 ray.o →
-    match s.castLocalRay ray max false with
-    | some t => t ≤ max ∧ SphereAt sq V3.zero s.r (rayPt sq ray t) ∧ ExitHit s.Mem3 (rayPt sq ray) t
-    | none => (∀ u, 0 ≤ u → u ≤ max → s.Mem3 (rayPt sq ray u)) ∧
-        (¬ SphereAt sq V3.zero s.r ray.o → ∀ u, 0 ≤ u → u ≤ max → ¬ SphereAt sq V3.zero s.r (rayPt sq ray u)) := by
-  intro ha hin
-  have e : BallAt sq (@V3.zero K (fieldNum K sq)) s.r = @Ball.Mem3 K (fieldNum K sq) s := by
-    funext p; exact propext (ballAt_zero sq s.r p)
-  have hin' : BallAt sq (@V3.zero K (fieldNum K sq)) s.r ray.o := by rw [e]; exact hin
-  obtain ⟨t, h1, h2, h3, h4⟩ := ball_nonsolid_exit sq hs (@V3.zero K (fieldNum K sq)) s.r ray ha hin'
-  rw [e] at h3
-  simp only [Ball.castLocalRay, h1]
-  by_cases hm : t ≤ max
-  · have hf : (some t).filter (fun t => decide (t ≤ max)) = some t := by simp [Option.filter, hm]
-    rw [hf]
-    exact ⟨hm, h2, h3⟩
-  · have hf : (some t).filter (fun t => decide (t ≤ max)) = none := by simp [Option.filter, hm]
-    rw [hf]
-    push Not at hm
-    exact ⟨fun u hu hum => h3.2.1 u hu (le_trans hum hm.le), fun hns u hu hum => h4 hns u hu (lt_of_le_of_lt hum hm)⟩
-
-
-/-- **Ball normal.** For `r > 0` and a non-zero direction: whenever `ray_toi_and_normal_with_ball` reports a hit that is
-not the "solid, origin inside, toi = 0" case, the normal is the unit radial vector at the hit point —
-`n = (p − c)/r` (outward) for an origin outside, `n = −(p − c)/r` for the exit of a non-solid cast — and it faces
-the ray: `n·d ≤ 0`.  The time is the one of `ray_toi_with_ball`. -/
-theorem ball_normal_spec (hs : LawfulSqrt sq) (c : V3 K) (r : K) (ray : Ray3 K) (solid : Bool) :
-    letI := fieldNum K sq
-    0 < r → 0 < ray.d.normSq →
-    ∀ h, (rayToiAndNormalWithBall c r ray solid).2 = some h →
-      (rayToiWithBall c r ray solid).2 = some h.toi ∧
-      (rayToiAndNormalWithBall c r ray solid).1 = (rayToiWithBall c r ray solid).1 ∧
-      (¬ ((rayToiWithBall c r ray solid).1 = true ∧ solid = true) →
-        h.n.smul r = (if (rayToiWithBall c r ray solid).1 then ((rayPt sq ray h.toi).sub c).neg else (rayPt sq ray h.toi).sub c) ∧
-        h.n.normSq = 1 ∧ h.n.dot ray.d ≤ 0) := by
-  intro hr ha h hh
-  have core := ball_core sq hs c r ray solid ha
-  simp only [rayToiAndNormalWithBall] at hh ⊢
-  rcases hres : @rayToiWithBall K (fieldNum K sq) c r ray solid with ⟨ins, inter⟩
-  rw [hres] at hh core
-  simp only at hh core ⊢
-  cases inter with
-  | none => simp at hh
-  | some t =>
-    simp only [Option.map_some, Option.some.injEq] at hh
-    subst hh
-    refine ⟨rfl, trivial, ?_⟩
-    intro hns
-    dsimp only
-    -- the hit is on the sphere
-    have hg : (@V3.normSq K (fieldNum K sq) (@V3.sub K (fieldNum K sq) (rayPt sq ray t) c)) = r * r ∧
-        (if ins then 0 ≤ @V3.normSq K (fieldNum K sq) ray.d * t + @V3.dot K (fieldNum K sq) (@V3.sub K (fieldNum K sq) ray.o c) ray.d
-         else @V3.normSq K (fieldNum K sq) ray.d * t + @V3.dot K (fieldNum K sq) (@V3.sub K (fieldNum K sq) ray.o c) ray.d ≤ 0) := by
-      cases ins with
-      | false =>
-        have := core.2.1 rfl
-        simp only at this
-        exact ⟨by linarith [this.2.1], this.2.2.1⟩
-      | true =>
-        have hsol : solid = false := by
-          cases solid with
-          | false => rfl
-          | true => exact absurd ⟨rfl, rfl⟩ hns
-        obtain ⟨t', ht', _, h3, h4, _⟩ := core.2.2.2 rfl hsol
-        simp only [Option.some.injEq] at ht'
-        subst ht'
-        exact ⟨by linarith [h3], h4⟩
-    obtain ⟨hsph, hsign⟩ := hg
-    have hnorm : @V3.norm K (fieldNum K sq) (@V3.sub K (fieldNum K sq) (rayPt sq ray t) c) = r := by
-      show sq _ = r
-      rw [hsph]; exact lawfulSqrt_mul_self sq hs r hr.le
-    have hpt : @V3.sub K (fieldNum K sq) (@V3.add K (fieldNum K sq) ray.o (@V3.smul K (fieldNum K sq) ray.d t)) c
-        = @V3.sub K (fieldNum K sq) (rayPt sq ray t) c := rfl
-    simp only [V3.normalize, hpt, hnorm]
-    have hdot : @V3.dot K (fieldNum K sq) (@V3.sub K (fieldNum K sq) (rayPt sq ray t) c) ray.d
-        = @V3.normSq K (fieldNum K sq) ray.d * t + @V3.dot K (fieldNum K sq) (@V3.sub K (fieldNum K sq) ray.o c) ray.d := by
-      simp only [rayPt, Ray3.pointAt, V3.add, V3.sub, V3.smul, V3.normSq, V3.dot]; ring
-    have hne : r ≠ 0 := ne_of_gt hr
-    cases ins with
-    | false =>
-      simp only [Bool.false_eq_true, if_false] at hsign ⊢
-      refine ⟨?_, ?_, ?_⟩
-      · simp only [V3.smul, V3.sdiv, div_mul_cancel₀ _ hne]
-      · have : @V3.normSq K (fieldNum K sq) (@V3.sdiv K (fieldNum K sq) (@V3.sub K (fieldNum K sq) (rayPt sq ray t) c) r)
-            = @V3.normSq K (fieldNum K sq) (@V3.sub K (fieldNum K sq) (rayPt sq ray t) c) / (r * r) := by
-          simp only [V3.normSq, V3.dot, V3.sdiv]; field_simp
-        rw [this, hsph]; exact div_self (mul_ne_zero hne hne)
-      · have : @V3.dot K (fieldNum K sq) (@V3.sdiv K (fieldNum K sq) (@V3.sub K (fieldNum K sq) (rayPt sq ray t) c) r) ray.d
-            = @V3.dot K (fieldNum K sq) (@V3.sub K (fieldNum K sq) (rayPt sq ray t) c) ray.d / r := by
-          simp only [V3.dot, V3.sdiv]; field_simp
-        rw [this, hdot]
-        exact div_nonpos_of_nonpos_of_nonneg hsign hr.le
-    | true =>
-      simp only [if_true] at hsign ⊢
-      refine ⟨?_, ?_, ?_⟩
-      · simp only [V3.smul, V3.sdiv, V3.neg, neg_mul, div_mul_cancel₀ _ hne]
-      · have : @V3.normSq K (fieldNum K sq) (@V3.neg K (fieldNum K sq) (@V3.sdiv K (fieldNum K sq) (@V3.sub K (fieldNum K sq) (rayPt sq ray t) c) r))
-            = @V3.normSq K (fieldNum K sq) (@V3.sub K (fieldNum K sq) (rayPt sq ray t) c) / (r * r) := by
-          simp only [V3.normSq, V3.dot, V3.sdiv, V3.neg]; field_simp
-        rw [this, hsph]; exact div_self (mul_ne_zero hne hne)
-      · have : @V3.dot K (fieldNum K sq) (@V3.neg K (fieldNum K sq) (@V3.sdiv K (fieldNum K sq) (@V3.sub K (fieldNum K sq) (rayPt sq ray t) c) r)) ray.d
-            = -(@V3.dot K (fieldNum K sq) (@V3.sub K (fieldNum K sq) (rayPt sq ray t) c) ray.d / r) := by
-          simp only [V3.dot, V3.sdiv, V3.neg]; field_simp; ring
-        rw [this, hdot]
-        exact neg_nonpos.2 (div_nonneg hsign hr.le)
-
-
-/-- **posed = local ∘ inverse transform (generic).** A result is the first hit of the local set `S` along the
-inverse-transformed ray iff it is the first hit of the posed set `{p | m⁻¹•p ∈ S}` along the world ray — same `toi`. -/
-theorem firstHit_posed (S : V3 K → Prop) (m : Iso3 K) (ray : Ray3 K) (max : K) (r : Option K) :
-    letI := fieldNum K sq
-    FirstHit S (rayPt sq (ray.invTransform m)) max r ↔ FirstHit (fun p => S (m.invAct p)) (rayPt sq ray) max r := by
-  cases r <;> simp only [FirstHit, rayPt_invTransform]
-
-/-- world normal `m.rot n` against the world direction equals the local normal against the local direction (unit `q`) -/
-theorem posed_normal_dot (m : Iso3 K) (n d : V3 K)
-    (hq : m.qi * m.qi + m.qj * m.qj + m.qk * m.qk + m.qw * m.qw = 1) :
-    letI := fieldNum K sq
-    (m.rot n).dot d = n.dot (m.invRot d) := by
-  have h1 := rot_dot sq m n (@Iso3.invRot K (fieldNum K sq) m d) hq
-  rw [rot_invRot sq m d hq] at h1
-  exact h1
-
-/-- the time reported by `cast_local_ray_and_get_normal` is the one of `cast_local_ray` -/
-theorem ball_getNormal_toi (s : Ball K) (ray : Ray3 K) (max : K) (solid : Bool) :
-    letI := fieldNum K sq
-    (s.castLocalRayAndGetNormal ray max solid).map (·.toi) = s.castLocalRay ray max solid := by
-  simp only [Ball.castLocalRayAndGetNormal, Ball.castLocalRay, rayToiAndNormalWithBall]
-  rcases @rayToiWithBall K (fieldNum K sq) (@V3.zero K (fieldNum K sq)) s.r ray solid with ⟨ins, inter⟩
-  cases inter with
-  | none => rfl
-  | some t =>
-    simp only [Option.map_some, Option.filter]
-    by_cases hm : t ≤ max <;> simp [hm]
-
-/-- **Ball, posed form (`cast_ray_and_get_normal`), solid.** For a unit rotation and a non-zero world direction the time
-returned is the first hit of the posed ball `{p | m⁻¹•p ∈ ball}` along the *world* ray, in units of the world
-direction. -/
-theorem ball_posed_solid_firstHit (hs : LawfulSqrt sq) (s : Ball K) (m : Iso3 K) (ray : Ray3 K) (max : K)
-    (hq : m.qi * m.qi + m.qj * m.qj + m.qk * m.qk + m.qw * m.qw = 1) :
-    letI := fieldNum K sq
-    0 < ray.d.normSq →
-    FirstHit (fun p => s.Mem3 (m.invAct p)) (rayPt sq ray) max ((s.castRayAndGetNormal m ray max true).map (·.toi)) := by
-  intro ha
-  have hd : 0 < @V3.normSq K (fieldNum K sq) (@Ray3.invTransform K (fieldNum K sq) ray m).d := by
-    show 0 < @V3.dot K (fieldNum K sq) (@Iso3.invRot K (fieldNum K sq) m ray.d) (@Iso3.invRot K (fieldNum K sq) m ray.d)
-    rw [invRot_dot sq m _ _ hq]; exact ha
-  have h := ball_cast_solid_firstHit sq hs s (@Ray3.invTransform K (fieldNum K sq) ray m) max hd
-  rw [← ball_getNormal_toi] at h
-  have e : (@Ball.castRayAndGetNormal K (fieldNum K sq) s m ray max true).map (·.toi)
-      = (@Ball.castLocalRayAndGetNormal K (fieldNum K sq) s (@Ray3.invTransform K (fieldNum K sq) ray m) max true).map (·.toi) := by
-    simp only [Ball.castRayAndGetNormal, Option.map_map]; rfl
-  rw [e]
-  exact (firstHit_posed sq _ m ray max _).1 h
-
-/-- **`toi_units`, Ball.** Casting along `l·d` (`l > 0`) with `max/l` divides the time by `l` (solid cast). -/
-theorem ball_toi_units (hs : LawfulSqrt sq) (s : Ball K) (ray : Ray3 K) (l max : K) (hl : 0 < l) :
-    letI := fieldNum K sq
-    0 < ray.d.normSq →
-    s.castLocalRay ⟨ray.o, ray.d.smul l⟩ (max / l) true = (s.castLocalRay ray max true).map (· / l) := by
-  intro ha
-  have ha' : 0 < @V3.normSq K (fieldNum K sq) (@V3.smul K (fieldNum K sq) ray.d l) := by
-    have : @V3.normSq K (fieldNum K sq) (@V3.smul K (fieldNum K sq) ray.d l) = l * l * @V3.normSq K (fieldNum K sq) ray.d := by
-      simp only [V3.normSq, V3.dot, V3.smul]; ring
-    rw [this]; positivity
-  exact toi_units_of_firstHit sq _ ray l max hl _ _ (ball_cast_solid_firstHit sq hs s ray max ha)
-    (ball_cast_solid_firstHit sq hs s ⟨ray.o, @V3.smul K (fieldNum K sq) ray.d l⟩ (max / l) ha')
-
-
-/-- non-vacuity: a non-unit direction (`|d| = 2`), an origin outside and an origin inside the unit ball, over `ℝ` -/
-example : letI := fieldNum ℝ Real.sqrt
-    (0:ℝ) < (V3.mk 2 0 0 : V3 ℝ).normSq ∧ ¬ BallAt Real.sqrt ⟨0,0,0⟩ 1 (⟨-3,0,0⟩ : V3 ℝ) ∧ BallAt Real.sqrt ⟨0,0,0⟩ 1 (⟨1/2,0,0⟩ : V3 ℝ)
-      ∧ ¬ SphereAt Real.sqrt ⟨0,0,0⟩ 1 (⟨1/2,0,0⟩ : V3 ℝ) := by
-  simp only [BallAt, SphereAt, Ball.Mem3, V3.normSq, V3.dot, V3.sub]; norm_num
-
-/-! ## HalfSpace (`ray_halfspace.rs`, corrected parallel-ray behaviour) -/
-
-/-- **HalfSpace cast, `solid = true`** (corrected parallel-ray behaviour), any non-zero or zero direction, `max_toi ≥ 0`:
-the reported time is the first parameter of `[0,max_toi]` in the half-space `{p | n·p ≤ 0}`; `None` ⇒ the segment misses it. -/
-theorem halfspace_cast_solid_firstHit (s : HalfSpace3 K) (ray : Ray3 K) (max : K) (hmax : 0 ≤ max) :
-    letI := fieldNum K sq
-    FirstHit s.Mem (rayPt sq ray) max ((s.castLocalRayAndGetNormal ray max true).map (·.toi)) := by
-  have lin := halfspace_lin sq s ray
-  simp only [HalfSpace3.castLocalRayAndGetNormal, halfspace_dpos sq s ray, apply_ite (Option.map (fun h : Hit3 K => h.toi)),
-    Option.map_some, Option.map_none, true_and]
-  generalize @V3.dot K (fieldNum K sq) s.n ray.o = al at lin ⊢
-  generalize @V3.dot K (fieldNum K sq) s.n ray.d = be at lin ⊢
-  have mem : ∀ u, @HalfSpace3.Mem K (fieldNum K sq) s (rayPt sq ray u) ↔ al + be * u ≤ 0 := fun u => by
-    unfold HalfSpace3.Mem; rw [lin]
-  split_ifs with h1 h2 h3 h4
-  · -- strictly inside
-    refine ⟨le_refl _, hmax, (mem 0).2 (by have : 0 < -al := h1; linarith), fun u h h' => absurd h' (not_lt.2 h)⟩
-  · -- parallel, origin on the plane
-    rw [neq_zero_iff] at h2 h3
-    refine ⟨le_refl _, hmax, (mem 0).2 (by linarith), fun u h h' => absurd h' (not_lt.2 h)⟩
-  · -- parallel, origin off the plane (hence outside)
-    rw [neq_zero_iff] at h2
-    have h3' : al ≠ 0 := fun h => h3 ((neq_zero_iff sq _).2 (by rw [h]; simp))
-    have hal : 0 < al := by
-      rcases lt_or_gt_of_ne h3' with h | h
-      · exact absurd (by linarith : 0 < -al) h1
-      · exact h
-    intro u hu _ hm
-    rw [mem, h2] at hm; linarith
-  · -- crossing within range
-    have hbe : be ≠ 0 := fun h => h2 ((neq_zero_iff sq _).2 h)
-    have hal : 0 ≤ al := by
-      by_contra h; push Not at h
-      exact h1 (by linarith)
-    refine ⟨h4.1, h4.2, (mem _).2 (le_of_eq (hs_root al be hbe)), ?_⟩
-    intro u hu hut hm
-    rw [mem] at hm
-    have hr := hs_root al be hbe
-    -- al ≥ 0, root ≥ 0 ⇒ be < 0 or al = 0 (then t = 0, vacuous)
-    rcases lt_or_gt_of_ne hbe with hb | hb
-    · nlinarith
-    · have : -al / be ≤ 0 := div_nonpos_of_nonpos_of_nonneg (by linarith) hb.le
-      linarith [h4.1]
-  · -- no crossing within range
-    have hbe : be ≠ 0 := fun h => h2 ((neq_zero_iff sq _).2 h)
-    have hal : 0 ≤ al := by
-      by_contra h; push Not at h
-      exact h1 (by linarith)
-    intro u hu hum hm
-    rw [mem] at hm
-    have hr := hs_root al be hbe
-    apply h4
-    rcases lt_or_gt_of_ne hbe with hb | hb
-    · -- be < 0: the root is ≥ 0 and ≤ u ≤ max
-      have h0 : 0 ≤ -al / be := div_nonneg_of_nonpos (by linarith) hb.le
-      refine ⟨h0, le_trans ?_ hum⟩
-      by_contra hc; push Not at hc
-      nlinarith
-    · -- be > 0: al + be u ≤ 0 with al ≥ 0, u ≥ 0 forces al = 0 = u·be
-      have hal0 : al = 0 := by nlinarith [mul_nonneg hb.le hu]
-      subst hal0
-      simp only [neg_zero, zero_div]
-      exact ⟨le_refl _, hmax⟩
-
-/-- **HalfSpace cast, `solid = false`**: for *every* origin (inside, outside, on the plane) the reported time is the first
-parameter of `[0,max_toi]` on the boundary plane `n·p = 0`; `None` ⇒ the segment never touches the plane.
-(From outside this is also the first point of the half-space; from inside it is the exit.) -/
-theorem halfspace_cast_nonsolid_firstHit (s : HalfSpace3 K) (ray : Ray3 K) (max : K) (hmax : 0 ≤ max) :
-    letI := fieldNum K sq
-    FirstHit (PlaneOf sq s) (rayPt sq ray) max ((s.castLocalRayAndGetNormal ray max false).map (·.toi)) := by
-  have lin := halfspace_lin sq s ray
-  simp only [HalfSpace3.castLocalRayAndGetNormal, halfspace_dpos sq s ray, apply_ite (Option.map (fun h : Hit3 K => h.toi)),
-    Option.map_some, Option.map_none, Bool.false_eq_true, false_and, if_false]
-  generalize @V3.dot K (fieldNum K sq) s.n ray.o = al at lin ⊢
-  generalize @V3.dot K (fieldNum K sq) s.n ray.d = be at lin ⊢
-  have mem : ∀ u, PlaneOf sq s (rayPt sq ray u) ↔ al + be * u = 0 := fun u => by
-    unfold PlaneOf; rw [lin]
-  split_ifs with h2 h3 h4
-  · rw [neq_zero_iff] at h2 h3
-    refine ⟨le_refl _, hmax, (mem 0).2 (by rw [h2]; linarith), fun u h h' => absurd h' (not_lt.2 h)⟩
-  · rw [neq_zero_iff] at h2
-    have h3' : al ≠ 0 := fun h => h3 ((neq_zero_iff sq _).2 (by rw [h]; simp))
-    intro u _ _ hm
-    rw [mem, h2] at hm; exact h3' (by linarith)
-  · have hbe : be ≠ 0 := fun h => h2 ((neq_zero_iff sq _).2 h)
-    refine ⟨h4.1, h4.2, (mem _).2 (hs_root al be hbe), ?_⟩
-    intro u _ hut hm
-    rw [mem] at hm
-    have hu : u = -al / be := by field_simp; linarith
-    exact absurd hu (ne_of_lt hut)
-  · have hbe : be ≠ 0 := fun h => h2 ((neq_zero_iff sq _).2 h)
-    intro u hu hum hm
-    rw [mem] at hm
-    have hu' : u = -al / be := by field_simp; linarith
-    exact h4 ⟨hu' ▸ hu, hu' ▸ hum⟩
-
-/-- **HalfSpace, non-solid from strictly inside**: every parameter up to the reported exit time is in the half-space. -/
-theorem halfspace_nonsolid_inside_before (s : HalfSpace3 K) (ray : Ray3 K) (max : K) (hmax : 0 ≤ max) (t : K) :
-    letI := fieldNum K sq
-    s.n.dot ray.o < 0 → (s.castLocalRayAndGetNormal ray max false).map (·.toi) = some t →
-    ∀ u, 0 ≤ u → u ≤ t → s.Mem (rayPt sq ray u) := by
-  intro hin hres u hu hut
-  have fh := halfspace_cast_nonsolid_firstHit sq s ray max hmax
-  rw [hres] at fh
-  obtain ⟨h0, _, hp, _⟩ := fh
-  have lin := halfspace_lin sq s ray
-  unfold PlaneOf at hp
-  unfold HalfSpace3.Mem
-  rw [lin] at hp ⊢
-  rcases eq_or_lt_of_le hut with h | h
-  · rw [h]; exact le_of_eq hp
-  · have ht : 0 < t := lt_of_le_of_lt hu h
-    nlinarith
-
-/-- **HalfSpace normal.** Origin strictly outside ⇒ the reported normal is the outward normal `n` and `n·d < 0`;
-origin strictly inside and `solid = false` ⇒ it is `−n` (facing the ray from inside) and `(−n)·d < 0`. -/
-theorem halfspace_normal_spec (s : HalfSpace3 K) (ray : Ray3 K) (max : K) (solid : Bool) (h : Hit3 K) :
-    letI := fieldNum K sq
-    s.castLocalRayAndGetNormal ray max solid = some h →
-    (0 < s.n.dot ray.o → h.n = s.n ∧ h.n.dot ray.d < 0) ∧
-    (s.n.dot ray.o < 0 → solid = false → h.n = s.n.neg ∧ h.n.dot ray.d < 0) := by
-  simp only [HalfSpace3.castLocalRayAndGetNormal, halfspace_dpos sq s ray]
-  have negdot : @V3.dot K (fieldNum K sq) (@V3.neg K (fieldNum K sq) s.n) ray.d = -(@V3.dot K (fieldNum K sq) s.n ray.d) := by
-    simp only [V3.neg, V3.dot]; ring
-  generalize @V3.dot K (fieldNum K sq) s.n ray.o = al at *
-  generalize hbe : @V3.dot K (fieldNum K sq) s.n ray.d = be at *
-  intro hres
-  split_ifs at hres with h1 h2 h3 h4 h5
-  · -- solid, inside
-    cases hres
-    exact ⟨fun ha => absurd h1.2 (by linarith), fun _ hs => by rw [hs] at h1; exact absurd h1.1 (by simp)⟩
-  · rw [neq_zero_iff] at h3
-    exact ⟨fun ha => absurd h3 (by linarith), fun ha _ => absurd h3 (by linarith)⟩
-  · -- 0 < -al : inside
-    cases hres
-    have hb : be ≠ 0 := fun h => h2 ((neq_zero_iff sq _).2 h)
-    refine ⟨fun ha => absurd h5 (by linarith), fun ha _ => ⟨rfl, ?_⟩⟩
-    show @V3.dot K (fieldNum K sq) (@V3.neg K (fieldNum K sq) s.n) ray.d < 0
-    rw [negdot]
-    -- t = -al/be ≥ 0 with -al > 0 ⇒ be > 0
-    rcases lt_or_gt_of_ne hb with hb' | hb'
-    · have : -al / be < 0 := div_neg_of_pos_of_neg h5 hb'
-      linarith [h4.1]
-    · linarith
-  · cases hres
-    have hb : be ≠ 0 := fun h => h2 ((neq_zero_iff sq _).2 h)
-    refine ⟨fun ha => ⟨rfl, ?_⟩, fun ha _ => absurd ha (by push Not at h5; linarith)⟩
-    show @V3.dot K (fieldNum K sq) s.n ray.d < 0
-    rw [hbe]
-    rcases lt_or_gt_of_ne hb with hb' | hb'
-    · exact hb'
-    · have : -al / be < 0 := div_neg_of_neg_of_pos (by linarith) hb'
-      linarith [h4.1]
-
-
-/-- **`toi_units`, HalfSpace (solid).** -/
-theorem halfspace_toi_units (s : HalfSpace3 K) (ray : Ray3 K) (l max : K) (hl : 0 < l) (hmax : 0 ≤ max) :
-    letI := fieldNum K sq
-    (s.castLocalRayAndGetNormal ⟨ray.o, ray.d.smul l⟩ (max / l) true).map (·.toi)
-      = ((s.castLocalRayAndGetNormal ray max true).map (·.toi)).map (· / l) :=
-  toi_units_of_firstHit sq _ ray l max hl _ _ (halfspace_cast_solid_firstHit sq s ray max hmax)
-    (halfspace_cast_solid_firstHit sq s ⟨ray.o, @V3.smul K (fieldNum K sq) ray.d l⟩ (max / l) (div_nonneg hmax hl.le))
-
-/-- non-vacuity (half-space): a ray parallel to the plane from inside, a crossing ray with `|d| = 5`, over `ℚ` -/
-example : letI := fieldNum ℚ id
-    ((HalfSpace3.mk ⟨0,1,0⟩ : HalfSpace3 ℚ).n.dot (⟨0,-1,0⟩ : V3 ℚ) < 0) ∧
-    (0 : ℚ) < (HalfSpace3.mk ⟨0,1,0⟩ : HalfSpace3 ℚ).n.dot (⟨0,2,0⟩ : V3 ℚ) ∧ (0:ℚ) ≤ 7 := by
-  simp only [V3.dot]; norm_num
-
-/-! ## Triangle, 3-D (`local_ray_intersection_with_triangle`, origin-on-plane branch corrected) -/
-
-/-- **Triangle (3-D), a reported hit is sound**, for any non-unit direction: `toi ≥ 0`, the barycentric coordinates
-are those of a point of the triangle (`≥ 0`, sum 1), the hit point `o + toi·d` *is* that point
-`a + β(b−a) + γ(c−a)`, the ray is not parallel to the plane and `toi` is the unique plane-crossing parameter
-(`toi·(n·d) = −(o−a)·n`). -/
-theorem triangle_inter_sound (a b c : V3 K) (ray : Ray3 K) (h : Hit3 K) (bary : V3 K) :
-    letI := fieldNum K sq
-    localRayIntersectionWithTriangle a b c ray = some (h, bary) →
-    0 ≤ h.toi ∧ 0 ≤ bary.y ∧ 0 ≤ bary.z ∧ bary.y + bary.z ≤ 1 ∧ bary.x = 1 - bary.y - bary.z ∧
-    rayPt sq ray h.toi = (a.add ((b.sub a).smul bary.y)).add ((c.sub a).smul bary.z) ∧
-    triD sq a b c ray ≠ 0 ∧ h.toi * triD sq a b c ray = -triT sq a b c ray := by
-  rw [tri_model_eq]
-  have pid := tri_point_identity sq a b c ray
-  generalize triD sq a b c ray = d0 at *
-  generalize triT sq a b c ray = t0 at *
-  generalize triVs sq a b c ray = vs at *
-  generalize triWs sq a b c ray = ws at *
-  obtain ⟨ax, ay, az⟩ := a; obtain ⟨bx, b_y, bz⟩ := b; obtain ⟨cx, cy, cz⟩ := c
-  obtain ⟨⟨ox, oy, oz⟩, ⟨dx, dy, dz⟩⟩ := ray
-  simp only [V3.add, V3.sub, V3.smul, V3.mk.injEq] at pid
-  obtain ⟨px, py, pz⟩ := pid
-  simp only []
-  intro hres
-  split_ifs at hres with h0 h1 h2 h3 h4 h5 h6
-  · -- d0 < 0
-    push Not at h3 h4 h1
-    have hd : d0 < 0 := h2
-    have habs : |d0| = -d0 := abs_of_neg hd
-    rw [habs] at hres h3 h4
-    have ht : 0 ≤ t0 := by
-      by_contra hc; push Not at hc; exact absurd hd (not_lt.2 (h1.1 hc))
-    simp only [Option.some.injEq, Prod.mk.injEq] at hres
-    obtain ⟨rfl, rfl⟩ := hres
-    simp only [rayPt, Ray3.pointAt, V3.add, V3.sub, V3.smul, V3.mk.injEq]
-    have hnd : 0 < -d0 := neg_pos.2 hd
-    have hi : 0 < 1 / -d0 := one_div_pos.2 hnd
-    have hne : d0 ≠ 0 := h0
-    refine ⟨mul_nonneg ht hi.le, mul_nonneg h3.1 hi.le, mul_nonneg h4.1 hi.le, ?_, by ring, ⟨?_, ?_, ?_⟩, h0, ?_⟩
-    · have : -vs * (1 / -d0) + -ws * (1 / -d0) = (-vs + -ws) / -d0 := by ring
-      rw [this, div_le_one hnd]; exact h4.2
-    · field_simp; linear_combination px
-    · field_simp; linear_combination py
-    · field_simp; linear_combination pz
-    · field_simp
-
-  · -- d0 > 0
-    push Not at h2 h5 h6 h1
-    have hd : 0 < d0 := lt_of_le_of_ne h2 (Ne.symm h0)
-    have habs : |d0| = d0 := abs_of_pos hd
-    rw [habs] at hres h5 h6
-    have ht : t0 ≤ 0 := by
-      by_contra hc; push Not at hc; exact absurd hd (not_lt.2 (h1.2 hc))
-    simp only [Option.some.injEq, Prod.mk.injEq] at hres
-    obtain ⟨rfl, rfl⟩ := hres
-    simp only [rayPt, Ray3.pointAt, V3.add, V3.sub, V3.smul, V3.mk.injEq]
-    have hi : 0 < 1 / d0 := one_div_pos.2 hd
-    refine ⟨by nlinarith, mul_nonneg h5.1 hi.le, mul_nonneg h6.1 hi.le, ?_, by ring, ⟨?_, ?_, ?_⟩, h0, ?_⟩
-    · have : vs * (1 / d0) + ws * (1 / d0) = (vs + ws) / d0 := by ring
-      rw [this, div_le_one hd]; exact h6.2
-    · field_simp; linear_combination px
-    · field_simp; linear_combination py
-    · field_simp; linear_combination pz
-    · field_simp
-
-/-- **Triangle (3-D), uniqueness**: when a hit is reported, its parameter is the *only* parameter (of the whole line) at
-which the ray is in the triangle — so it is in particular the first one. -/
-theorem triangle_inter_unique (a b c : V3 K) (ray : Ray3 K) (h : Hit3 K) (bary : V3 K) (s : K) :
-    letI := fieldNum K sq
-    localRayIntersectionWithTriangle a b c ray = some (h, bary) →
-    (Triangle3.mk a b c).Mem (rayPt sq ray s) → s = h.toi := by
-  intro hres ⟨u, v, _, _, _, hp⟩
-  obtain ⟨_, _, _, _, _, _, hd, ht⟩ := triangle_inter_sound sq a b c ray h bary hres
-  obtain ⟨e1, _, _⟩ := tri_mem_facts sq a b c ray s u v hp
-  have : (s - h.toi) * triD sq a b c ray = 0 := by linear_combination e1 - ht
-  rcases mul_eq_zero.1 this with h' | h'
-  · linarith
-  · exact absurd h' hd
-
-/-- **Triangle (3-D), `None` is sound** unless the ray lies in the triangle's plane (`n·d = 0 ∧ (o−a)·n = 0`, the
-coplanar case the algorithm gives up on — KNOWN_FINDINGS): no point of the ray `[0,∞)` is in the triangle. -/
-theorem triangle_inter_none_partial (a b c : V3 K) (ray : Ray3 K) :
-    letI := fieldNum K sq
-    localRayIntersectionWithTriangle a b c ray = none →
-    ¬ (triD sq a b c ray = 0 ∧ triT sq a b c ray = 0) →
-    ∀ s, 0 ≤ s → ¬ (Triangle3.mk a b c).Mem (rayPt sq ray s) := by
-  intro hres hnc s hs ⟨u, v, hu, hv, huv, hp⟩
-  obtain ⟨e1, e2, e3⟩ := tri_mem_facts sq a b c ray s u v hp
-  rw [tri_model_eq] at hres
-  generalize triD sq a b c ray = d0 at *
-  generalize triT sq a b c ray = t0 at *
-  generalize triVs sq a b c ray = vs at *
-  generalize triWs sq a b c ray = ws at *
-  simp only [] at hres
-  subst e2 e3
-  split_ifs at hres with h0 h1 h2 h3 h4 h5 h6
-  · exact hnc ⟨h0, by rw [h0] at e1; linarith⟩
-  · rcases h1 with ⟨a1, a2⟩ | ⟨a1, a2⟩
-    · nlinarith [mul_nonneg hs (neg_nonneg.2 a2.le)]
-    · nlinarith [mul_nonneg hs a2.le]
-  · -- d0 < 0, first barycentric test fails
-    rw [abs_of_neg h2] at h3
-    rcases h3 with h3 | h3 <;> nlinarith [mul_nonneg hu (neg_nonneg.2 h2.le), mul_nonneg (sub_nonneg.2 (le_trans (le_add_of_nonneg_right hv) huv)) (neg_nonneg.2 h2.le)]
-  · rw [abs_of_neg h2] at h4
-    rcases h4 with h4 | h4 <;> nlinarith [mul_nonneg hv (neg_nonneg.2 h2.le), mul_nonneg (sub_nonneg.2 huv) (neg_nonneg.2 h2.le)]
-  · have hd : 0 < d0 := lt_of_le_of_ne (not_lt.1 h2) (Ne.symm h0)
-    rw [abs_of_pos hd] at h5
-    rcases h5 with h5 | h5 <;> nlinarith [mul_nonneg hu hd.le, mul_nonneg (sub_nonneg.2 (le_trans (le_add_of_nonneg_right hv) huv)) hd.le]
-  · have hd : 0 < d0 := lt_of_le_of_ne (not_lt.1 h2) (Ne.symm h0)
-    rw [abs_of_pos hd] at h6
-    rcases h6 with h6 | h6 <;> nlinarith [mul_nonneg hv hd.le, mul_nonneg (sub_nonneg.2 huv) hd.le]
-
-/-- the full-strength statement for the 3-D triangle (no side condition). It is **false** for the code (rays lying in
-the triangle's plane are reported as misses), see `triangle_cast_firstHit_partial` and KNOWN_FINDINGS. -/
-def triangle_cast_firstHit_full : Prop :=
-  ∀ (s : Triangle3 K) (ray : Ray3 K) (max : K) (solid : Bool),
-    letI := fieldNum K sq
-    FirstHit s.Mem (rayPt sq ray) max ((s.castLocalRayAndGetNormal ray max solid).map (·.toi))
-
-/-- **Triangle::cast_local_ray_and_get_normal (3-D)**: for every ray that does not lie in the triangle's plane (any
-non-unit direction, both `solid` flags, every `max_toi`), the reported time is the first parameter of `[0,max_toi]` in the
-triangle, and `None` means the segment misses the triangle.  Gap to `triangle_cast_firstHit_full`: coplanar rays. -/
-theorem triangle_cast_firstHit_partial (s : Triangle3 K) (ray : Ray3 K) (max : K) (solid : Bool) :
-    letI := fieldNum K sq
-    ¬ (triD sq s.a s.b s.c ray = 0 ∧ triT sq s.a s.b s.c ray = 0) →
-    FirstHit s.Mem (rayPt sq ray) max ((s.castLocalRayAndGetNormal ray max solid).map (·.toi)) := by
-  intro hnc
-  obtain ⟨a, b, c⟩ := s
-  simp only [Triangle3.castLocalRayAndGetNormal]
-  cases hres : @localRayIntersectionWithTriangle K (fieldNum K sq) a b c ray with
-  | none =>
-    exact fun u hu _ => triangle_inter_none_partial sq a b c ray hres hnc u hu
-  | some p =>
-    obtain ⟨h, bary⟩ := p
-    have snd := triangle_inter_sound sq a b c ray h bary hres
-    have unq := triangle_inter_unique sq a b c ray h bary
-    simp only
-    by_cases hm : h.toi ≤ max
-    · rw [if_pos hm]
-      refine ⟨snd.1, hm, ⟨bary.y, bary.z, snd.2.1, snd.2.2.1, snd.2.2.2.1, snd.2.2.2.2.2.1⟩, ?_⟩
-      intro u _ hut hmem
-      exact absurd (unq u hres hmem) (ne_of_lt hut)
-    · rw [if_neg hm]
-      intro u _ hum hmem
-      have := unq u hres hmem
-      rw [this] at hum; exact hm hum
-
-/-- **Triangle normal (3-D).** With a lawful square root: a reported normal is a unit vector, collinear with the triangle's
-normal `n = (b−a)×(c−a)` (`normal·|n| = ±n`), oriented against the ray: `normal·d < 0`. -/
-theorem triangle_normal_spec (hs : LawfulSqrt sq) (a b c : V3 K) (ray : Ray3 K) (h : Hit3 K) (bary : V3 K) :
-    letI := fieldNum K sq
-    localRayIntersectionWithTriangle a b c ray = some (h, bary) →
-    h.n.normSq = 1 ∧ h.n.dot ray.d < 0 ∧
-    (h.n.smul (triN sq a b c).norm = triN sq a b c ∨ h.n.smul (triN sq a b c).norm = (triN sq a b c).neg) := by
-  intro hres
-  have hd := (triangle_inter_sound sq a b c ray h bary hres).2.2.2.2.2.2.1
-  rw [tri_model_eq] at hres
-  have hdn : triD sq a b c ray = @V3.dot K (fieldNum K sq) (triN sq a b c) ray.d := rfl
-  generalize triN sq a b c = n at *
-  -- |n| > 0
-  have hnn : 0 < @V3.normSq K (fieldNum K sq) n := by
-    have h0 : 0 ≤ @V3.normSq K (fieldNum K sq) n := by
-      simp only [V3.normSq, V3.dot]; nlinarith [mul_self_nonneg n.x, mul_self_nonneg n.y, mul_self_nonneg n.z]
-    rcases eq_or_lt_of_le h0 with h | h
-    · exfalso; apply hd; rw [hdn]
-      simp only [V3.normSq, V3.dot] at h
-      have hx : n.x = 0 := by nlinarith [mul_self_nonneg n.x, mul_self_nonneg n.y, mul_self_nonneg n.z]
-      have hy : n.y = 0 := by nlinarith [mul_self_nonneg n.x, mul_self_nonneg n.y, mul_self_nonneg n.z]
-      have hz : n.z = 0 := by nlinarith [mul_self_nonneg n.x, mul_self_nonneg n.y, mul_self_nonneg n.z]
-      simp only [V3.dot, hx, hy, hz]; ring
-    · exact h
-  have hw0 : 0 ≤ sq (@V3.normSq K (fieldNum K sq) n) := hs.nonneg _ hnn.le
-  have hww : sq (@V3.normSq K (fieldNum K sq) n) * sq (@V3.normSq K (fieldNum K sq) n) = @V3.normSq K (fieldNum K sq) n := hs.sq_mul _ hnn.le
-  have hnorm : @V3.norm K (fieldNum K sq) n = sq (@V3.normSq K (fieldNum K sq) n) := rfl
-  have hwpos : 0 < sq (@V3.normSq K (fieldNum K sq) n) := by
-    rcases eq_or_lt_of_le hw0 with h | h
-    · rw [← h] at hww; linarith
-    · exact h
-  generalize triD sq a b c ray = d0 at *
-  generalize triT sq a b c ray = t0 at *
-  generalize triVs sq a b c ray = vs at *
-  generalize triWs sq a b c ray = ws at *
-  simp only [] at hres
-  rw [hnorm]
-  generalize sq (@V3.normSq K (fieldNum K sq) n) = w at *
-  have hne : w ≠ 0 := ne_of_gt hwpos
-  obtain ⟨nx, ny, nz⟩ := n
-  split_ifs at hres with h0 h1 h2 h3 h4 h5 h6
-  · simp only [Option.some.injEq, Prod.mk.injEq] at hres
-    obtain ⟨rfl, _⟩ := hres
-    simp only [V3.normalize, V3.norm, V3.sdiv, V3.smul, V3.normSq, V3.dot, V3.neg, V3.mk.injEq] at *
-    simp only [hnorm]
-    refine ⟨?_, ?_, Or.inl ⟨by field_simp, by field_simp, by field_simp⟩⟩
-    · field_simp; linarith
-    · have : nx / w * ray.d.x + ny / w * ray.d.y + nz / w * ray.d.z = d0 / w := by rw [hdn]; field_simp
-      rw [this]; exact div_neg_of_neg_of_pos h2 hwpos
-  · have hd0 : 0 < d0 := lt_of_le_of_ne (not_lt.1 h2) (Ne.symm h0)
-    simp only [Option.some.injEq, Prod.mk.injEq] at hres
-    obtain ⟨rfl, _⟩ := hres
-    simp only [V3.normalize, V3.norm, V3.sdiv, V3.smul, V3.normSq, V3.dot, V3.neg, V3.mk.injEq] at *
-    simp only [hnorm]
-    refine ⟨?_, ?_, Or.inr ⟨by field_simp, by field_simp, by field_simp⟩⟩
-    · field_simp; linarith
-    · have : -(nx / w) * ray.d.x + -(ny / w) * ray.d.y + -(nz / w) * ray.d.z = -(d0 / w) := by rw [hdn]; field_simp; ring
-      rw [this]; exact neg_neg_of_pos (div_pos hd0 hwpos)
-
-
-/-- **`toi_units`, Triangle (3-D)** (rays not lying in the triangle's plane). -/
-theorem triangle_toi_units (s : Triangle3 K) (ray : Ray3 K) (l max : K) (solid : Bool) (hl : 0 < l) :
-    letI := fieldNum K sq
-    ¬ (triD sq s.a s.b s.c ray = 0 ∧ triT sq s.a s.b s.c ray = 0) →
-    (s.castLocalRayAndGetNormal ⟨ray.o, ray.d.smul l⟩ (max / l) solid).map (·.toi)
-      = ((s.castLocalRayAndGetNormal ray max solid).map (·.toi)).map (· / l) := by
-  intro hnc
-  have hD : triD sq s.a s.b s.c ⟨ray.o, @V3.smul K (fieldNum K sq) ray.d l⟩ = l * triD sq s.a s.b s.c ray := by
-    simp only [triD, triN, V3.dot, V3.smul, V3.cross, V3.sub]; ring
-  have hT : triT sq s.a s.b s.c ⟨ray.o, @V3.smul K (fieldNum K sq) ray.d l⟩ = triT sq s.a s.b s.c ray := rfl
-  have hnc' : ¬ (triD sq s.a s.b s.c ⟨ray.o, @V3.smul K (fieldNum K sq) ray.d l⟩ = 0 ∧
-      triT sq s.a s.b s.c ⟨ray.o, @V3.smul K (fieldNum K sq) ray.d l⟩ = 0) := by
-    rw [hD, hT]; rintro ⟨h1, h2⟩
-    rcases mul_eq_zero.1 h1 with h | h
-    · exact absurd h (ne_of_gt hl)
-    · exact hnc ⟨h, h2⟩
-  exact toi_units_of_firstHit sq _ ray l max hl _ _ (triangle_cast_firstHit_partial sq s ray max solid hnc)
-    (triangle_cast_firstHit_partial sq s ⟨ray.o, @V3.smul K (fieldNum K sq) ray.d l⟩ (max / l) solid hnc')
-
-/-- non-vacuity (triangle): a ray of direction length 3 crossing the plane of the unit right triangle (`n·d = −3 ≠ 0`) -/
-example : ¬ (triD id (⟨0,0,0⟩ : V3 ℚ) ⟨1,0,0⟩ ⟨0,1,0⟩ ⟨⟨1/4,1/4,2⟩, ⟨0,0,-3⟩⟩ = 0 ∧
-    triT id (⟨0,0,0⟩ : V3 ℚ) ⟨1,0,0⟩ ⟨0,1,0⟩ ⟨⟨1/4,1/4,2⟩, ⟨0,0,-3⟩⟩ = 0) := by
-  simp only [triD, triT, triN, V3.dot, V3.cross, V3.sub]; norm_num
-
-/-! ## Aabb / Cuboid, time only (`Aabb::cast_local_ray`, `max_toi` handling corrected) -/
-
-/-- **Aabb::cast_local_ray, `solid = true`** (corrected `max_toi` handling), any non-zero or zero direction with zero
-components allowed, `0 ≤ max_toi ≤ Real::MAX`: the result is the first parameter of `[0, max_toi]` in the box;
-`None` ⇒ the segment misses the box. -/
-theorem aabb_cast_solid_firstHit (big : K) (b : Aabb K) (ray : Ray3 K) (max : K) (hv : AabbValid b)
-    (hmax0 : 0 ≤ max) (hmaxb : max ≤ big) :
-    letI := fieldNum K sq
-    FirstHit (AabbMem b) (rayPt sq ray) max (b.castLocalRay big ray max true) := by
-  rcases aabb_cast_cases sq big b ray max true hv (le_trans hmax0 hmaxb) with ⟨st, inv, hres⟩ | ⟨hres, hno⟩
-  · rw [hres]
-    simp only [Bool.true_eq_false, and_false, if_false]
-    by_cases hm : st.1 ≤ max
-    · rw [if_pos hm]
-      refine ⟨inv.lo, hm, (inv.iff _ inv.lo (le_trans hm hmaxb)).2 ⟨le_refl _, inv.le⟩, ?_⟩
-      intro s hs hst hmem
-      have := (inv.iff s hs (le_trans hst.le (le_trans hm hmaxb))).1 hmem
-      linarith [this.1]
-    · rw [if_neg hm]
-      intro s hs hsm hmem
-      have := (inv.iff s hs (le_trans hsm hmaxb)).1 hmem
-      exact hm (le_trans this.1 hsm)
-  · rw [hres]
-    exact fun s hs hsm => hno s hs (le_trans hsm hmaxb)
-
-/-- **Aabb::cast_local_ray, origin outside the box (both `solid` flags).** First hit as above; moreover a reported hit has
-`t > 0` and lies on a face plane (so on the boundary of the box). -/
-theorem aabb_cast_outside_firstHit (big : K) (b : Aabb K) (ray : Ray3 K) (max : K) (solid : Bool) (hv : AabbValid b)
-    (hmax0 : 0 ≤ max) (hmaxb : max ≤ big) :
-    letI := fieldNum K sq
-    ¬ AabbMem b ray.o →
-    FirstHit (AabbMem b) (rayPt sq ray) max (b.castLocalRay big ray max solid) ∧
-    ∀ t, b.castLocalRay big ray max solid = some t → 0 < t ∧ OnFace b (rayPt sq ray t) := by
-  intro hout
-  have hbig := le_trans hmax0 hmaxb
-  rcases aabb_cast_cases sq big b ray max solid hv hbig with ⟨st, inv, hres⟩ | ⟨hres, hno⟩
-  · -- tmin ≠ 0 because the origin is outside
-    have h0 : st.1 ≠ 0 := by
-      intro h
-      apply hout
-      have := (inv.iff 0 (le_refl _) hbig).2 ⟨by rw [h], by rw [← h]; exact inv.le⟩
-      rwa [rayPt_zero] at this
-    have hpos : 0 < st.1 := lt_of_le_of_ne inv.lo (Ne.symm h0)
-    have hc : ¬ (st.1 = 0 ∧ solid = false) := fun h => h0 h.1
-    have he : (if st.1 = 0 ∧ solid = false then st.2 else st.1) = st.1 := if_neg hc
-    rw [hres, he]
-    by_cases hm : st.1 ≤ max
-    · rw [if_pos hm]
-      refine ⟨⟨inv.lo, hm, (inv.iff _ inv.lo (le_trans hm hmaxb)).2 ⟨le_refl _, inv.le⟩, ?_⟩, ?_⟩
-      · intro s hs hst hmem
-        have := (inv.iff s hs (le_trans hst.le (le_trans hm hmaxb))).1 hmem
-        linarith [this.1]
-      · intro t ht; cases ht
-        exact ⟨hpos, inv.fmin.resolve_left h0⟩
-    · rw [if_neg hm]
-      refine ⟨?_, fun t ht => by cases ht⟩
-      intro s hs hsm hmem
-      have := (inv.iff s hs (le_trans hsm hmaxb)).1 hmem
-      exact hm (le_trans this.1 hsm)
-  · rw [hres]
-    exact ⟨fun s hs hsm => hno s hs (le_trans hsm hmaxb), fun t ht => by cases ht⟩
-
-/-- **Aabb::cast_local_ray, `solid = false`, origin in the box** (corrected): `Some t` ⇒ `t ≤ max_toi`, `t` is the exit
-parameter — `[0,t]` is in the box, nothing of `(t, Real::MAX]` is — and, unless `t` is the `Real::MAX` sentinel, the
-hit point lies on a face plane. `None` ⇒ the exit is beyond `max_toi`: the whole segment stays in the box.
-(On the pinned tree the `None` case returns `Some(max_toi)`: see `aabb_castLocalRayPinned_counterexample`.) -/
-theorem aabb_cast_nonsolid_inside (big : K) (b : Aabb K) (ray : Ray3 K) (max : K) (hv : AabbValid b)
-    (hmax0 : 0 ≤ max) (hmaxb : max ≤ big) :
-    letI := fieldNum K sq
-    AabbMem b ray.o →
-    match b.castLocalRay big ray max false with
-    | some t => t ≤ max ∧ AabbMem b (rayPt sq ray t) ∧ (t < big → OnFace b (rayPt sq ray t)) ∧
-        (∀ s, 0 ≤ s → s ≤ t → AabbMem b (rayPt sq ray s)) ∧ (∀ s, t < s → s ≤ big → ¬ AabbMem b (rayPt sq ray s))
-    | none => ∀ s, 0 ≤ s → s ≤ max → AabbMem b (rayPt sq ray s) := by
-  intro hin
-  have hbig := le_trans hmax0 hmaxb
-  rcases aabb_cast_cases sq big b ray max false hv hbig with ⟨st, inv, hres⟩ | ⟨hres, hno⟩
-  · have h0 : st.1 = 0 := by
-      have hm : AabbMem b (rayPt sq ray 0) := by rw [rayPt_zero]; exact hin
-      have := (inv.iff 0 (le_refl _) hbig).1 hm
-      exact le_antisymm this.1 inv.lo
-    have he : (if st.1 = 0 ∧ false = false then st.2 else st.1) = st.2 := if_pos ⟨h0, rfl⟩
-    rw [hres, he]
-    by_cases hm : st.2 ≤ max
-    · rw [if_pos hm]
-      have h02 : 0 ≤ st.2 := by rw [← h0]; exact inv.le
-      refine ⟨hm, (inv.iff _ h02 inv.hi).2 ⟨inv.le, le_refl _⟩, fun hlt => inv.fmax.resolve_left (ne_of_lt hlt), ?_, ?_⟩
-      · intro s hs hst
-        exact (inv.iff s hs (le_trans hst inv.hi)).2 ⟨by rw [h0]; exact hs, hst⟩
-      · intro s hst hsb hmem
-        have := (inv.iff s (le_trans h02 hst.le) hsb).1 hmem
-        linarith [this.2]
-    · rw [if_neg hm]
-      intro s hs hsm
-      push Not at hm
-      exact (inv.iff s hs (le_trans hsm hmaxb)).2 ⟨by rw [h0]; exact hs, le_trans hsm hm.le⟩
-  · exfalso
-    exact hno 0 (le_refl _) hbig (by rw [rayPt_zero]; exact hin)
-
-/-- **The pinned `Aabb::cast_local_ray` violates the property** (machine-checked witness over `ℚ`): unit cube `[-1,1]³`,
-origin at the centre, direction `(1,0,0)`, `max_toi = 1/2`, `solid = false` ⇒ the pinned code returns `Some(1/2)`, a point
-strictly inside the box (on no face plane), although the exit is at `1 > max_toi`. The corrected model returns `None`. -/
-theorem aabb_castLocalRayPinned_counterexample :
-    letI := fieldNum ℚ id
-    (Aabb.mk ⟨-1,-1,-1⟩ ⟨1,1,1⟩ : Aabb ℚ).castLocalRayPinned ⟨⟨0,0,0⟩, ⟨1,0,0⟩⟩ (1/2) false = some (1/2) ∧
-    ¬ OnFace (Aabb.mk ⟨-1,-1,-1⟩ ⟨1,1,1⟩ : Aabb ℚ) (rayPt id ⟨⟨0,0,0⟩, ⟨1,0,0⟩⟩ (1/2)) ∧
-    (Aabb.mk ⟨-1,-1,-1⟩ ⟨1,1,1⟩ : Aabb ℚ).castLocalRay 1000 ⟨⟨0,0,0⟩, ⟨1,0,0⟩⟩ (1/2) false = none := by
-  refine ⟨?_, ?_, ?_⟩
-  · simp only [Aabb.castLocalRayPinned, slabStep, neq, nmax, nmin]
-    norm_num
-  · simp only [OnFace, rayPt, Ray3.pointAt, V3.add, V3.smul]; norm_num
-  · simp only [Aabb.castLocalRay, slabStep, neq, nmax, nmin]
-    norm_num
-
-/-- **Cuboid::cast_local_ray, solid** (`Cuboid` = `Aabb(−he, he)`), non-negative half-extents: first hit of the cuboid
-`{p | |p_i| ≤ he_i}` (`Cuboid3.Mem` of `Shapes.lean`). -/
-theorem cuboid_cast_solid_firstHit (big : K) (s : Cuboid3 K) (ray : Ray3 K) (max : K)
-    (hhe : 0 ≤ s.he.x ∧ 0 ≤ s.he.y ∧ 0 ≤ s.he.z) (hmax0 : 0 ≤ max) (hmaxb : max ≤ big) :
-    letI := fieldNum K sq
-    FirstHit s.Mem (rayPt sq ray) max (s.castLocalRay big ray max true) := by
-  have hv : AabbValid (⟨@V3.neg K (fieldNum K sq) s.he, s.he⟩ : Aabb K) := by
-    simp only [AabbValid, V3.neg]; refine ⟨?_, ?_, ?_⟩ <;> linarith [hhe.1, hhe.2.1, hhe.2.2]
-  exact aabb_cast_solid_firstHit sq big _ ray max hv hmax0 hmaxb
-
-/-- **`toi_units`, Aabb/Cuboid (solid)**: casting along `l·d` with `max/l` divides the time by `l`
-(both bounds below the `Real::MAX` sentinel). -/
-theorem aabb_toi_units (big : K) (b : Aabb K) (ray : Ray3 K) (l max : K) (hl : 0 < l) (hv : AabbValid b)
-    (hmax0 : 0 ≤ max) (hmaxb : max ≤ big) (hmaxb' : max / l ≤ big) :
-    letI := fieldNum K sq
-    b.castLocalRay big ⟨ray.o, ray.d.smul l⟩ (max / l) true = (b.castLocalRay big ray max true).map (· / l) :=
-  toi_units_of_firstHit sq _ ray l max hl _ _ (aabb_cast_solid_firstHit sq big b ray max hv hmax0 hmaxb)
-    (aabb_cast_solid_firstHit sq big b ⟨ray.o, @V3.smul K (fieldNum K sq) ray.d l⟩ (max / l) hv (div_nonneg hmax0 hl.le) hmaxb')
-
-/-- non-vacuity (box): a valid box, an origin inside and one outside, `0 ≤ max ≤ big`, over `ℚ` -/
-example : AabbValid (⟨⟨-1,-2,-3⟩, ⟨1,2,3⟩⟩ : Aabb ℚ) ∧ AabbMem (⟨⟨-1,-2,-3⟩, ⟨1,2,3⟩⟩ : Aabb ℚ) ⟨1/2, 0, -3⟩ ∧
-    ¬ AabbMem (⟨⟨-1,-2,-3⟩, ⟨1,2,3⟩⟩ : Aabb ℚ) ⟨5, 0, 0⟩ ∧ (0:ℚ) ≤ 10 ∧ (10:ℚ) ≤ 1000 := by
-  simp only [AabbValid, AabbMem]; norm_num
-
-/-! ## Aabb / Cuboid with normal (`clip_aabb_line`, `ray_aabb`) -/
-
-/-- an outward face normal is a unit vector strictly facing the ray -/
-theorem outwardFaceNormal_facing (b : Aabb K) (ray : Ray3 K) (t : K) (n : V3 K) (h : OutwardFaceNormal sq b ray t n) :
-    letI := fieldNum K sq
-    n.normSq = 1 ∧ n.dot ray.d < 0 ∧ OnFace b (rayPt sq ray t) := by
-  unfold OnFace
-  rcases h with ⟨rfl, h1, h2⟩ | ⟨rfl, h1, h2⟩ | ⟨rfl, h1, h2⟩ | ⟨rfl, h1, h2⟩ | ⟨rfl, h1, h2⟩ | ⟨rfl, h1, h2⟩ <;>
-    simp only [V3.normSq, V3.dot] <;> refine ⟨by ring, by linarith, ?_⟩ <;> simp [h2]
-
-/-- **`clip_aabb_line`, full line.** Non-degenerate box, `big = Real::MAX ≥ 0`: `Some(near, far)` ⇒ on `[−big, big]` the
-line `o + s·d` is in the box exactly for `near.t ≤ s ≤ far.t` (and `near.t ≤ far.t`) — also when the box lies entirely
-behind the origin (`far.t < 0`), which the function now reports instead of bailing out; `None` ⇒ no parameter of
-`[−big, big]` is in the box (the line misses it). -/
-theorem clip_aabb_line_spec (big : K) (b : Aabb K) (ray : Ray3 K) (hv : AabbStrict b) (hbig : 0 ≤ big) :
-    letI := fieldNum K sq
-    match clipAabbLine big b ray.o ray.d with
-    | .some near far => near.t ≤ far.t ∧
-        ∀ s, -big ≤ s → s ≤ big → (AabbMem b (rayPt sq ray s) ↔ near.t ≤ s ∧ s ≤ far.t)
-    | .none => ∀ s, -big ≤ s → s ≤ big → ¬ AabbMem b (rayPt sq ray s) := by
-  rcases clip_cases sq big b ray hv hbig with ⟨st, inv, hclip⟩ | ⟨hclip, hno⟩
-  · rw [hclip]; exact ⟨inv.le, inv.iff⟩
-  · rw [hclip]; exact hno
-
-/-- **Aabb::cast_local_ray_and_get_normal (`ray_aabb` over `clip_aabb_line`), `solid = true`.** Non-degenerate box,
-`0 ≤ max_toi ≤ Real::MAX`, any direction (zero components, even the zero vector, allowed — the function no longer
-panics): the reported time is the first parameter of `[0, max_toi]` in the box; `None` (which now includes the
-`far < 0` test made by `ray_aabb` itself) ⇒ the segment misses the box. -/
-theorem aabb_normalCast_solid_firstHit (big : K) (b : Aabb K) (ray : Ray3 K) (max : K) (hv : AabbStrict b)
-    (hmax0 : 0 ≤ max) (hmaxb : max ≤ big) :
-    letI := fieldNum K sq
-    FirstHit (AabbMem b) (rayPt sq ray) max ((b.castLocalRayAndGetNormal big ray max true).map (·.toi)) := by
-  have hbig := le_trans hmax0 hmaxb
-  rcases aabbN_cases sq big b ray max true hv hbig with ⟨st, inv, hc⟩ | ⟨hr, hno⟩
-  · have inR : ∀ s, 0 ≤ s → s ≤ max → (AabbMem b (rayPt sq ray s) ↔ st.tmin ≤ s ∧ s ≤ st.tmax) := fun s h1 h2 =>
-      inv.iff s (le_trans (neg_nonpos.2 hbig) h1) (le_trans h2 hmaxb)
-    rcases hc with ⟨h0, hr⟩ | ⟨h0, h1, _, h, hr, ht⟩ | ⟨_, _, hs, _⟩ | ⟨_, _, hs, _⟩ | ⟨h0, h1, h2, h, hr, ht, _⟩ | ⟨h0, h1, h2, hr⟩
-    · rw [hr]
-      intro s a c hm
-      have := (inR s a c).1 hm
-      linarith [this.2]
-    · rw [hr]; simp only [Option.map_some, ht]
-      exact ⟨le_refl _, hmax0, (inR 0 (le_refl _) hmax0).2 ⟨h1.le, h0⟩, fun s a c => absurd c (not_lt.2 a)⟩
-    · cases hs
-    · cases hs
-    · rw [hr]; simp only [Option.map_some, ht]
-      refine ⟨h1, h2, (inR _ h1 h2).2 ⟨le_refl _, inv.le⟩, fun s a c hm => ?_⟩
-      have := (inR s a (le_trans c.le h2)).1 hm
-      linarith [this.1]
-    · rw [hr]
-      intro s a c hm
-      have := (inR s a c).1 hm
-      linarith [this.1]
-  · rw [hr]
-    exact fun s a c => hno s (le_trans (neg_nonpos.2 hbig) a) (le_trans c hmaxb)
-
-/-- **Aabb::cast_local_ray_and_get_normal, origin outside the box (both `solid` flags).** First hit as above; a reported
-hit has `t > 0`, and its normal is either the outward unit normal `∓e_i` of a face plane through the hit point with the
-ray moving against it (so `n·d < 0`), or — when two slabs tie (edge/corner hit, `near_diag`) — the code's choice
-`−dir/|dir|`. -/
-theorem aabb_normalCast_outside (big : K) (b : Aabb K) (ray : Ray3 K) (max : K) (solid : Bool) (hv : AabbStrict b)
-    (hmax0 : 0 ≤ max) (hmaxb : max ≤ big) :
-    letI := fieldNum K sq
-    ¬ AabbMem b ray.o →
-    FirstHit (AabbMem b) (rayPt sq ray) max ((b.castLocalRayAndGetNormal big ray max solid).map (·.toi)) ∧
-    ∀ h, b.castLocalRayAndGetNormal big ray max solid = some h →
-      0 < h.toi ∧ (OutwardFaceNormal sq b ray h.toi h.n ∨ h.n = ray.d.normalize.neg) := by
-  intro hout
-  have hbig := le_trans hmax0 hmaxb
-  rcases aabbN_cases sq big b ray max solid hv hbig with ⟨st, inv, hc⟩ | ⟨hr, hno⟩
-  · have inR : ∀ s, 0 ≤ s → s ≤ max → (AabbMem b (rayPt sq ray s) ↔ st.tmin ≤ s ∧ s ≤ st.tmax) := fun s h1 h2 =>
-      inv.iff s (le_trans (neg_nonpos.2 hbig) h1) (le_trans h2 hmaxb)
-    -- origin outside ⇒ not (tmin ≤ 0 ≤ tmax)
-    have hpos : 0 ≤ st.tmax → 0 < st.tmin := by
-      intro h0
-      by_contra hc'; push Not at hc'
-      apply hout
-      have := (inR 0 (le_refl _) hmax0).2 ⟨hc', h0⟩
-      rwa [rayPt_zero] at this
-    rcases hc with ⟨h0, hr⟩ | ⟨h0, h1, _⟩ | ⟨h0, h1, _⟩ | ⟨h0, h1, _⟩ | ⟨h0, h1, h2, h, hr, ht, hn⟩ | ⟨h0, h1, h2, hr⟩
-    · rw [hr]
-      exact ⟨fun s a c hm => by have := (inR s a c).1 hm; linarith [this.2], fun h hh => by cases hh⟩
-    · linarith [hpos h0]
-    · linarith [hpos h0]
-    · linarith [hpos h0]
-    · rw [hr]
-      refine ⟨?_, ?_⟩
-      · simp only [Option.map_some, ht]
-        refine ⟨h1, h2, (inR _ h1 h2).2 ⟨le_refl _, inv.le⟩, fun s a c hm => ?_⟩
-        have := (inR s a (le_trans c.le h2)).1 hm
-        linarith [this.1]
-      · intro h' hh; cases hh
-        refine ⟨by rw [ht]; exact hpos h0, ?_⟩
-        rw [hn, ht]
-        cases hdiag : st.nearDiag with
-        | true => right; simp only [clipNearN, hdiag, if_true]
-        | false =>
-          left
-          have hok : NearOK b ray st.nearSide st.tmin := by
-            rcases inv.nside with ⟨_, hm⟩ | h
-            · have := hpos h0; rw [hm] at this; linarith
-            · exact h
-          exact clipNearN_outward sq b ray st hdiag hok
-    · rw [hr]
-      exact ⟨fun s a c hm => by have := (inR s a c).1 hm; linarith [this.1], fun h hh => by cases hh⟩
-  · rw [hr]
-    exact ⟨fun s a c => hno s (le_trans (neg_nonpos.2 hbig) a) (le_trans c hmaxb), fun h hh => by cases hh⟩
-
-/-- **Aabb::cast_local_ray_and_get_normal, `solid = false`, origin in the box.** `Some h` ⇒ `h.toi ≤ max_toi`, the point
-is in the box, and either `h.toi = 0` (origin on the boundary, ray entering: this form reports the origin itself) or
-`h.toi` is the exit parameter (`[0,toi]` inside, nothing of `(toi, Real::MAX]` inside). `None` ⇒ the whole segment
-`[0,max_toi]` stays in the box (exit beyond `max_toi`). -/
-theorem aabb_normalCast_nonsolid_inside (big : K) (b : Aabb K) (ray : Ray3 K) (max : K) (hv : AabbStrict b)
-    (hmax0 : 0 ≤ max) (hmaxb : max ≤ big) :
-    letI := fieldNum K sq
-    AabbMem b ray.o →
-    match b.castLocalRayAndGetNormal big ray max false with
-    | some h => h.toi ≤ max ∧ AabbMem b (rayPt sq ray h.toi) ∧
-        (h.toi = 0 ∨ ((∀ s, 0 ≤ s → s ≤ h.toi → AabbMem b (rayPt sq ray s)) ∧
-                      ∀ s, h.toi < s → s ≤ big → ¬ AabbMem b (rayPt sq ray s)))
-    | none => ∀ s, 0 ≤ s → s ≤ max → AabbMem b (rayPt sq ray s) := by
-  intro hin
-  have hbig := le_trans hmax0 hmaxb
-  have hm0 : AabbMem b (rayPt sq ray 0) := by rw [rayPt_zero]; exact hin
-  rcases aabbN_cases sq big b ray max false hv hbig with ⟨st, inv, hc⟩ | ⟨hr, hno⟩
-  · have inB : ∀ s, 0 ≤ s → s ≤ big → (AabbMem b (rayPt sq ray s) ↔ st.tmin ≤ s ∧ s ≤ st.tmax) := fun s h1 h2 =>
-      inv.iff s (le_trans (neg_nonpos.2 hbig) h1) h2
-    have h00 := (inB 0 (le_refl _) hbig).1 hm0
-    rcases hc with ⟨h0, _⟩ | ⟨_, _, hs, _⟩ | ⟨h0, h1, _, h2, h, hr, ht, _⟩ | ⟨h0, h1, _, h2, hr⟩ | ⟨h0, h1, h2, h, hr, ht, _⟩ | ⟨h0, h1, h2, hr⟩
-    · linarith [h00.2]
-    · cases hs
-    · rw [hr]; simp only [ht]
-      refine ⟨h2, (inB _ h0 inv.hi).2 ⟨inv.le, le_refl _⟩, Or.inr ⟨fun s a c => ?_, fun s a c hm => ?_⟩⟩
-      · exact (inB s a (le_trans c inv.hi)).2 ⟨le_trans h00.1 a, c⟩
-      · have := (inB s (le_trans h0 a.le) c).1 hm
-        linarith [this.2]
-    · rw [hr]
-      intro s a c
-      exact (inB s a (le_trans c hmaxb)).2 ⟨le_trans h00.1 a, le_trans c h2.le⟩
-    · have e : st.tmin = 0 := le_antisymm h00.1 h1
-      rw [hr]; simp only [ht, e]
-      exact ⟨hmax0, hm0, Or.inl trivial⟩
-    · linarith [h00.1]
-  · exfalso
-    exact hno 0 (neg_nonpos.2 hbig) hbig hm0
-
-/-- the edge/corner ("diag") normal `−dir/|dir|` is a unit vector facing the ray (lawful square root, `dir ≠ 0`) -/
-theorem diag_normal_facing (hs : LawfulSqrt sq) (d : V3 K) :
-    letI := fieldNum K sq
-    0 < d.normSq → d.normalize.neg.normSq = 1 ∧ d.normalize.neg.dot d < 0 := by
-  intro hd
-  have hw0 := hs.nonneg _ hd.le
-  have hww := hs.sq_mul _ hd.le
-  have hn : @V3.norm K (fieldNum K sq) d = sq (@V3.normSq K (fieldNum K sq) d) := rfl
-  simp only [V3.normalize, hn]
-  generalize sq (@V3.normSq K (fieldNum K sq) d) = w at *
-  have hwpos : 0 < w := by
-    rcases eq_or_lt_of_le hw0 with h | h
-    · rw [← h] at hww; linarith
-    · exact h
-  have hne : w ≠ 0 := ne_of_gt hwpos
-  obtain ⟨x, y, z⟩ := d
-  simp only [V3.normSq, V3.dot, V3.neg, V3.sdiv] at *
-  constructor
-  · field_simp; linarith
-  · have : -(x / w) * x + -(y / w) * y + -(z / w) * z = -((x * x + y * y + z * z) / w) := by field_simp; ring
-    rw [this]; exact neg_neg_of_pos (div_pos hd hwpos)
-
-/-! ## Segment, 2-D (`Segment::cast_local_ray_and_get_normal`, `closest_points_line_line_parameters_eps`) -/
-
-/-- **Segment (2-D) cast, non-parallel branch**: ray direction and segment longer than `√ε`, and `ε < |d|²|e|² − (d·e)²`
-(so the code does not declare the lines parallel). For every `max_toi` and any non-unit direction the reported time is the
-first (indeed the only) parameter of `[0,max_toi]` at which the ray is on the segment; `None` ⇒ the ray segment misses it. -/
-theorem segment2_cast_nonparallel_firstHit (s : Segment2 K) (ray : Ray2 K) (max : K) (solid : Bool) :
-    letI := fieldNum K sq
-    letI := fieldUlps K
-    epsK K < ray.d.normSq → epsK K < (s.b.sub s.a).normSq →
-    epsK K < ray.d.normSq * (s.b.sub s.a).normSq - ray.d.dot (s.b.sub s.a) * ray.d.dot (s.b.sub s.a) →
-    FirstHit s.Mem (rayPt2 sq ray) max ((s.castLocalRayAndGetNormal ray max solid).map (·.toi)) := by
-  intro ha he hden
-  have hcp := cp_nonparallel sq ray.o ray.d s.a (@V2.sub K (fieldNum K sq) s.b s.a) ha he hden
-  simp only [Segment2.castLocalRayAndGetNormal, hcp, Bool.false_eq_true, if_false]
-  have hden0 : @V2.normSq K (fieldNum K sq) ray.d * @V2.normSq K (fieldNum K sq) (@V2.sub K (fieldNum K sq) s.b s.a)
-      - @V2.dot K (fieldNum K sq) ray.d (@V2.sub K (fieldNum K sq) s.b s.a) * @V2.dot K (fieldNum K sq) ray.d (@V2.sub K (fieldNum K sq) s.b s.a) ≠ 0 :=
-    ne_of_gt (lt_trans epsK_pos hden)
-  have he0 : @V2.normSq K (fieldNum K sq) (@V2.sub K (fieldNum K sq) s.b s.a) ≠ 0 := ne_of_gt (lt_trans epsK_pos he)
-  have hpt := seg_nonparallel_point sq s.a s.b ray _ _ hden0 he0 rfl rfl
-  have hperp : perp2 ray.d (@V2.sub K (fieldNum K sq) s.b s.a) ≠ 0 := by
-    intro h
-    apply hden0
-    rw [← perp2_sq sq, h, mul_zero]
-  generalize hsp : (@V2.dot K (fieldNum K sq) ray.d (@V2.sub K (fieldNum K sq) s.b s.a) * @V2.dot K (fieldNum K sq) (@V2.sub K (fieldNum K sq) s.b s.a) (@V2.sub K (fieldNum K sq) ray.o s.a)
-      - @V2.dot K (fieldNum K sq) ray.d (@V2.sub K (fieldNum K sq) ray.o s.a) * @V2.normSq K (fieldNum K sq) (@V2.sub K (fieldNum K sq) s.b s.a)) /
-      (@V2.normSq K (fieldNum K sq) ray.d * @V2.normSq K (fieldNum K sq) (@V2.sub K (fieldNum K sq) s.b s.a)
-      - @V2.dot K (fieldNum K sq) ray.d (@V2.sub K (fieldNum K sq) s.b s.a) * @V2.dot K (fieldNum K sq) ray.d (@V2.sub K (fieldNum K sq) s.b s.a)) = sp at *
-  generalize htp : (@V2.dot K (fieldNum K sq) ray.d (@V2.sub K (fieldNum K sq) s.b s.a) * sp
-      + @V2.dot K (fieldNum K sq) (@V2.sub K (fieldNum K sq) s.b s.a) (@V2.sub K (fieldNum K sq) ray.o s.a)) / @V2.normSq K (fieldNum K sq) (@V2.sub K (fieldNum K sq) s.b s.a) = tp at *
-  -- any parameter on the segment equals sp, with segment coordinate tp
-  have huniq : ∀ u t, rayPt2 sq ray u = @V2.add K (fieldNum K sq) s.a (@V2.smul K (fieldNum K sq) (@V2.sub K (fieldNum K sq) s.b s.a) t) → u = sp ∧ t = tp := by
-    intro u t hu
-    obtain ⟨e1, e2⟩ := seg_mem_facts sq s.a s.b ray u t hu
-    obtain ⟨f1, f2⟩ := seg_mem_facts sq s.a s.b ray sp tp hpt
-    constructor
-    · have : (u - sp) * perp2 ray.d (@V2.sub K (fieldNum K sq) s.b s.a) = 0 := by linear_combination e1 - f1
-      rcases mul_eq_zero.1 this with h | h
-      · linarith
-      · exact absurd h hperp
-    · have : (t - tp) * perp2 ray.d (@V2.sub K (fieldNum K sq) s.b s.a) = 0 := by linear_combination e2 - f2
-      rcases mul_eq_zero.1 this with h | h
-      · linarith
-      · exact absurd h hperp
-  by_cases hc : 0 ≤ sp ∧ sp ≤ max ∧ 0 ≤ tp ∧ tp ≤ 1
-  · rw [if_pos hc]
-    have : ∀ (x y : Hit2 K) (c : Prop) [Decidable c], x.toi = sp → y.toi = sp → Option.map (fun h : Hit2 K => h.toi) (if c then some x else some y) = some sp := by
-      intro x y c _ hx hy; split_ifs <;> simp [hx, hy]
-    rw [this _ _ _ rfl rfl]
-    refine ⟨hc.1, hc.2.1, ⟨tp, hc.2.2.1, hc.2.2.2, hpt⟩, ?_⟩
-    intro u _ hut ⟨t, _, _, hu⟩
-    exact absurd (huniq u t hu).1 (ne_of_lt hut)
-  · rw [if_neg hc]
-    intro u hu hum ⟨t, ht0, ht1, hmem⟩
-    obtain ⟨rfl, rfl⟩ := huniq u t hmem
-    exact hc ⟨hu, hum, ht0, ht1⟩
-
-
-/-- **Segment (2-D) cast, parallel and off the line.** Direction and segment longer than `√ε`, exactly parallel
-(`d × e = 0`), origin at distance `≥ ε` from the segment's line (`ε²|e|² ≤ ((o−a)×e)²`): the cast returns `None` and
-indeed no point of the whole line through the ray is on the segment. -/
-theorem segment2_cast_parallel_offline (hs : LawfulSqrt sq) (s : Segment2 K) (ray : Ray2 K) (max : K) (solid : Bool) :
-    letI := fieldNum K sq
-    letI := fieldUlps K
-    epsK K < ray.d.normSq → epsK K < (s.b.sub s.a).normSq → perp2 ray.d (s.b.sub s.a) = 0 →
-    epsK K * epsK K * (s.b.sub s.a).normSq ≤ perp2 (ray.o.sub s.a) (s.b.sub s.a) * perp2 (ray.o.sub s.a) (s.b.sub s.a) →
-    s.castLocalRayAndGetNormal ray max solid = none ∧ ∀ u, ¬ s.Mem (rayPt2 sq ray u) := by
-  intro ha he hchi hoff
-  have hden : @V2.normSq K (fieldNum K sq) ray.d * @V2.normSq K (fieldNum K sq) (@V2.sub K (fieldNum K sq) s.b s.a)
-      - @V2.dot K (fieldNum K sq) ray.d (@V2.sub K (fieldNum K sq) s.b s.a) * @V2.dot K (fieldNum K sq) ray.d (@V2.sub K (fieldNum K sq) s.b s.a) ≤ epsK K := by
-    rw [← perp2_sq sq, hchi, mul_zero]; exact epsK_pos.le
-  have hpar := cp_parallel sq ray.o ray.d s.a _ ha he hden
-  obtain ⟨w, hw, hww, hn⟩ := seg_normal_eq sq hs s he
-  have hepos : 0 < @V2.normSq K (fieldNum K sq) (@V2.sub K (fieldNum K sq) s.b s.a) := lt_trans epsK_pos he
-  have hpne : perp2 (@V2.sub K (fieldNum K sq) ray.o s.a) (@V2.sub K (fieldNum K sq) s.b s.a) ≠ 0 := by
-    intro h; rw [h, mul_zero] at hoff
-    nlinarith [@epsK_pos K _ _ _, mul_pos (mul_pos (@epsK_pos K _ _ _) (@epsK_pos K _ _ _)) hepos]
-  constructor
-  · rw [seg_cast_parallel_eq sq s ray max solid hpar]
-    simp only [hn, defaultEps_eq, fieldNum_nabs]
-    have hdot : @V2.dot K (fieldNum K sq) (@V2.sub K (fieldNum K sq) s.a ray.o)
-        ⟨(@V2.sub K (fieldNum K sq) s.b s.a).y / w, -(@V2.sub K (fieldNum K sq) s.b s.a).x / w⟩
-        = perp2 (@V2.sub K (fieldNum K sq) ray.o s.a) (@V2.sub K (fieldNum K sq) s.b s.a) * (-1) / w := by
-      simp only [V2.dot, V2.sub, perp2]; field_simp; ring
-    rw [hdot]
-    have : ¬ (|perp2 (@V2.sub K (fieldNum K sq) ray.o s.a) (@V2.sub K (fieldNum K sq) s.b s.a) * (-1) / w| < epsK K) := by
-      rw [abs_div, abs_of_pos hw, not_lt, le_div_iff₀ hw, mul_neg_one, abs_neg]
-      rw [← hww] at hoff
-      have hp2 := abs_mul_abs_self (perp2 (@V2.sub K (fieldNum K sq) ray.o s.a) (@V2.sub K (fieldNum K sq) s.b s.a))
-      have hp0 := abs_nonneg (perp2 (@V2.sub K (fieldNum K sq) ray.o s.a) (@V2.sub K (fieldNum K sq) s.b s.a))
-      by_contra hc; push Not at hc
-      nlinarith [mul_pos (@epsK_pos K _ _ _) hw]
-    rw [if_neg this]
-  · intro u ⟨t, _, _, hu⟩
-    obtain ⟨e1, _⟩ := seg_mem_facts sq s.a s.b ray u t hu
-    rw [hchi, mul_zero] at e1
-    exact hpne (by linarith)
-
-/-- **Segment (2-D) cast, collinear branch.** Direction and segment longer than `√ε`, exactly parallel and the origin
-exactly on the segment's line: for every `max_toi ≥ 0` the reported time is the first parameter of `[0,max_toi]` on the
-segment — the nearer end point when the segment is ahead, `0` when the origin is on the segment, `None` when it is behind
-or farther than `max_toi`; times are in units of the (non-unit) direction: `toi = (end − o)·d / |d|²`. -/
-theorem segment2_cast_collinear_firstHit (hs : LawfulSqrt sq) (s : Segment2 K) (ray : Ray2 K) (max : K) (solid : Bool)
-    (hmax : 0 ≤ max) :
-    letI := fieldNum K sq
-    letI := fieldUlps K
-    epsK K < ray.d.normSq → epsK K < (s.b.sub s.a).normSq → perp2 ray.d (s.b.sub s.a) = 0 →
-    perp2 (ray.o.sub s.a) (s.b.sub s.a) = 0 →
-    FirstHit s.Mem (rayPt2 sq ray) max ((s.castLocalRayAndGetNormal ray max solid).map (·.toi)) := by
-  intro ha he hchi hon
-  have hden : @V2.normSq K (fieldNum K sq) ray.d * @V2.normSq K (fieldNum K sq) (@V2.sub K (fieldNum K sq) s.b s.a)
-      - @V2.dot K (fieldNum K sq) ray.d (@V2.sub K (fieldNum K sq) s.b s.a) * @V2.dot K (fieldNum K sq) ray.d (@V2.sub K (fieldNum K sq) s.b s.a) ≤ epsK K := by
-    rw [← perp2_sq sq, hchi, mul_zero]; exact epsK_pos.le
-  have hpar := cp_parallel sq ray.o ray.d s.a _ ha he hden
-  obtain ⟨w, hw, hww, hn⟩ := seg_normal_eq sq hs s he
-  have hdpos : 0 < @V2.normSq K (fieldNum K sq) ray.d := lt_trans epsK_pos ha
-  have hepos : 0 < @V2.normSq K (fieldNum K sq) (@V2.sub K (fieldNum K sq) s.b s.a) := lt_trans epsK_pos he
-  have col := fun u t => seg_collinear_iff sq s.a s.b ray u t hdpos hepos hchi hon
-  -- e·d ≠ 0
-  have hg : @V2.dot K (fieldNum K sq) (@V2.sub K (fieldNum K sq) s.b s.a) ray.d ≠ 0 := by
-    intro h
-    have h1 := perp2_sq sq ray.d (@V2.sub K (fieldNum K sq) s.b s.a)
-    have h2 : @V2.dot K (fieldNum K sq) ray.d (@V2.sub K (fieldNum K sq) s.b s.a) = @V2.dot K (fieldNum K sq) (@V2.sub K (fieldNum K sq) s.b s.a) ray.d := by
-      simp only [V2.dot]; ring
-    rw [hchi, h2, h] at h1
-    nlinarith [mul_pos hdpos hepos]
-  rw [seg_cast_parallel_eq sq s ray max solid hpar]
-  simp only [hn, defaultEps_eq, fieldNum_nabs, fieldNum_nmin]
-  have hdot : @V2.dot K (fieldNum K sq) (@V2.sub K (fieldNum K sq) s.a ray.o)
-      ⟨(@V2.sub K (fieldNum K sq) s.b s.a).y / w, -(@V2.sub K (fieldNum K sq) s.b s.a).x / w⟩ = 0 := by
-    have : @V2.dot K (fieldNum K sq) (@V2.sub K (fieldNum K sq) s.a ray.o)
-        ⟨(@V2.sub K (fieldNum K sq) s.b s.a).y / w, -(@V2.sub K (fieldNum K sq) s.b s.a).x / w⟩
-        = perp2 (@V2.sub K (fieldNum K sq) ray.o s.a) (@V2.sub K (fieldNum K sq) s.b s.a) * (-1) / w := by
-      simp only [V2.dot, V2.sub, perp2]; field_simp; ring
-    rw [this, hon]; simp
-  rw [hdot]
-  simp only [abs_zero, epsK_pos, if_true]
-  generalize hd1 : @V2.dot K (fieldNum K sq) (@V2.sub K (fieldNum K sq) s.a ray.o) ray.d = d1 at *
-  generalize hgg : @V2.dot K (fieldNum K sq) (@V2.sub K (fieldNum K sq) s.b s.a) ray.d = g at *
-  generalize hn2 : @V2.normSq K (fieldNum K sq) ray.d = n2 at *
-  -- membership in terms of the coordinate along d
-  have mem : ∀ u, @Segment2.Mem K (fieldNum K sq) s (rayPt2 sq ray u) ↔ ∃ t, 0 ≤ t ∧ t ≤ 1 ∧ u * n2 = d1 + t * g := by
-    intro u
-    constructor
-    · rintro ⟨t, h0, h1, hp⟩; exact ⟨t, h0, h1, (col u t).1 hp⟩
-    · rintro ⟨t, h0, h1, hp⟩; exact ⟨t, h0, h1, (col u t).2 hp⟩
-  simp only [apply_ite (Option.map (fun h : Hit2 K => h.toi)), Option.map_some, Option.map_none]
-  by_cases hA : 0 ≤ d1 ∧ 0 ≤ d1 + g
-  · rw [if_pos hA]
-    have hlow : ∀ u t, 0 ≤ t → t ≤ 1 → u * n2 = d1 + t * g → min d1 (d1 + g) ≤ u * n2 := by
-      intro u t h0 h1 hu
-      rw [hu]
-      rcases le_total 0 g with hgs | hgs
-      · exact le_trans (min_le_left _ _) (by nlinarith)
-      · exact le_trans (min_le_right _ _) (by nlinarith)
-    by_cases hM : max < min d1 (d1 + g) / n2
-    · rw [if_pos hM]
-      intro u hu hum hm
-      obtain ⟨t, h0, h1, hp⟩ := (mem u).1 hm
-      have := hlow u t h0 h1 hp
-      rw [lt_div_iff₀ hdpos] at hM
-      nlinarith
-    · rw [if_neg hM]
-      push Not at hM
-      by_cases h12 : d1 ≤ d1 + g
-      · rw [if_pos h12, min_eq_left h12] at *
-        refine ⟨div_nonneg hA.1 hdpos.le, hM, (mem (d1 / n2)).2 ⟨0, le_refl _, zero_le_one, by field_simp; ring⟩, ?_⟩
-        intro u hu hut hm
-        obtain ⟨t, h0, h1, hp⟩ := (mem u).1 hm
-        have := hlow u t h0 h1 hp
-        rw [lt_div_iff₀ hdpos] at hut
-        linarith
-      · rw [if_neg h12]
-        push Not at h12
-        rw [min_eq_right h12.le] at *
-        refine ⟨div_nonneg hA.2 hdpos.le, hM, (mem ((d1 + g) / n2)).2 ⟨1, zero_le_one, le_refl _, by field_simp⟩, ?_⟩
-        intro u hu hut hm
-        obtain ⟨t, h0, h1, hp⟩ := (mem u).1 hm
-        have := hlow u t h0 h1 hp
-        rw [lt_div_iff₀ hdpos] at hut
-        linarith
-  · rw [if_neg hA]
-    by_cases hB : 0 ≤ d1 ∨ 0 ≤ d1 + g
-    · rw [if_pos hB]
-      refine ⟨le_refl _, hmax, (mem 0).2 ?_, fun u hu hu0 => absurd hu0 (not_lt.2 hu)⟩
-      refine ⟨-d1 / g, ?_, ?_, by field_simp; ring⟩
-      · rcases hB with h | h
-        · have hg2 : d1 + g < 0 := by by_contra hc; push Not at hc; exact hA ⟨h, hc⟩
-          have : g < 0 := by linarith
-          exact div_nonneg_of_nonpos (by linarith) this.le
-        · have hd : d1 < 0 := by by_contra hc; push Not at hc; exact hA ⟨hc, h⟩
-          have : 0 < g := by linarith
-          exact div_nonneg (by linarith) this.le
-      · rcases hB with h | h
-        · have hg2 : d1 + g < 0 := by by_contra hc; push Not at hc; exact hA ⟨h, hc⟩
-          have : g < 0 := by linarith
-          rw [div_le_one_of_neg this]; linarith
-        · have hd : d1 < 0 := by by_contra hc; push Not at hc; exact hA ⟨hc, h⟩
-          have : 0 < g := by linarith
-          rw [div_le_one this]; linarith
-    · rw [if_neg hB]
-      push Not at hB
-      intro u hu _ hm
-      obtain ⟨t, h0, h1, hp⟩ := (mem u).1 hm
-      have h3 : 0 ≤ u * n2 := mul_nonneg hu hdpos.le
-      have h4 : d1 + t * g < 0 := by
-        have e : d1 + t * g = (1 - t) * d1 + t * (d1 + g) := by ring
-        rw [e]
-        rcases eq_or_lt_of_le h0 with ht | ht
-        · rw [← ht]; simp; exact hB.1
-        · nlinarith [mul_neg_of_pos_of_neg ht hB.2, mul_nonneg (sub_nonneg.2 h1) (neg_nonneg.2 hB.1.le)]
-      linarith
-
-
-/-- the full-strength statement for the 2-D segment (no side conditions). It is **false** for the code: lines with
-`0 < |d|²|e|² sin²θ ≤ ε` are declared parallel (absolute threshold, scale dependent — KNOWN_FINDINGS) and origins closer
-than `ε` to the line are declared collinear. The three theorems above cover every other configuration. -/
-def segment2_cast_firstHit_full : Prop :=
-  ∀ (s : Segment2 K) (ray : Ray2 K) (max : K) (solid : Bool),
-    letI := fieldNum K sq
-    letI := fieldUlps K
-    0 ≤ max → FirstHit s.Mem (rayPt2 sq ray) max ((s.castLocalRayAndGetNormal ray max solid).map (·.toi))
-
-/-- **Segment (2-D) normal.** For a segment longer than `√ε` (lawful square root) the vector used by the cast,
-`Segment::normal()`, is a unit vector perpendicular to the segment; in the crossing branch the reported normal is `±` it,
-oriented against the ray (`n·d ≤ 0`). -/
-theorem segment2_normal_spec (hs : LawfulSqrt sq) (s : Segment2 K) (ray : Ray2 K) (max : K) (solid : Bool) :
-    letI := fieldNum K sq
-    letI := fieldUlps K
-    epsK K < ray.d.normSq → epsK K < (s.b.sub s.a).normSq →
-    epsK K < ray.d.normSq * (s.b.sub s.a).normSq - ray.d.dot (s.b.sub s.a) * ray.d.dot (s.b.sub s.a) →
-    s.normalOrZero.normSq = 1 ∧ s.normalOrZero.dot (s.b.sub s.a) = 0 ∧
-    ∀ h, s.castLocalRayAndGetNormal ray max solid = some h →
-      (h.n = s.normalOrZero ∨ h.n = s.normalOrZero.neg) ∧ h.n.dot ray.d ≤ 0 := by
-  intro ha he hden
-  obtain ⟨w, hw, hww, hn⟩ := seg_normal_eq sq hs s he
-  have hne : w ≠ 0 := ne_of_gt hw
-  refine ⟨?_, ?_, ?_⟩
-  · rw [hn]; simp only [V2.normSq, V2.dot] at hww ⊢; field_simp; linarith
-  · rw [hn]; simp only [V2.dot]; field_simp; ring
-  · intro h hres
-    have hcp := cp_nonparallel sq ray.o ray.d s.a (@V2.sub K (fieldNum K sq) s.b s.a) ha he hden
-    simp only [Segment2.castLocalRayAndGetNormal, hcp, Bool.false_eq_true, if_false] at hres
-    split_ifs at hres with h1 h2
-    · cases hres
-      refine ⟨Or.inr rfl, ?_⟩
-      have : @V2.dot K (fieldNum K sq) (@V2.neg K (fieldNum K sq) (@Segment2.normalOrZero K (fieldNum K sq) s)) ray.d
-          = -(@V2.dot K (fieldNum K sq) (@Segment2.normalOrZero K (fieldNum K sq) s) ray.d) := by
-        simp only [V2.dot, V2.neg]; ring
-      rw [this]; linarith
-    · cases hres
-      exact ⟨Or.inl rfl, not_lt.1 h2⟩
-
-/-- non-vacuity (segment): a crossing configuration with `|d| = 3` and a collinear one, over `ℚ` -/
-example : letI := fieldNum ℚ id
-    epsK ℚ < (⟨0, 3⟩ : V2 ℚ).normSq ∧ epsK ℚ < ((⟨2, 0⟩ : V2 ℚ).sub ⟨-2, 0⟩).normSq ∧
-    epsK ℚ < (⟨0, 3⟩ : V2 ℚ).normSq * ((⟨2, 0⟩ : V2 ℚ).sub ⟨-2, 0⟩).normSq
-      - (⟨0, 3⟩ : V2 ℚ).dot ((⟨2, 0⟩ : V2 ℚ).sub ⟨-2, 0⟩) * (⟨0, 3⟩ : V2 ℚ).dot ((⟨2, 0⟩ : V2 ℚ).sub ⟨-2, 0⟩) ∧
-    perp2 (⟨5, 0⟩ : V2 ℚ) ((⟨2, 0⟩ : V2 ℚ).sub ⟨-2, 0⟩) = 0 := by
-  simp only [epsK, V2.normSq, V2.dot, V2.sub, perp2]; norm_num
-
-/-! ## posed forms of the other shapes, `toi_units` for the 2-D segment -/
-
-/-- **Cuboid, posed form (`cast_ray`), solid**: the time returned for the world ray is the first hit of the posed cuboid
-`{p | m⁻¹•p ∈ cuboid}` (any isometry `m`; `toi` in units of the world direction, which may be non-unit). -/
-theorem cuboid_posed_solid_firstHit (big : K) (s : Cuboid3 K) (m : Iso3 K) (ray : Ray3 K) (max : K)
-    (hhe : 0 ≤ s.he.x ∧ 0 ≤ s.he.y ∧ 0 ≤ s.he.z) (hmax0 : 0 ≤ max) (hmaxb : max ≤ big) :
-    letI := fieldNum K sq
-    FirstHit (fun p => s.Mem (m.invAct p)) (rayPt sq ray) max (s.castRay big m ray max true) :=
-  (firstHit_posed sq _ m ray max _).1 (cuboid_cast_solid_firstHit sq big s (@Ray3.invTransform K (fieldNum K sq) ray m) max hhe hmax0 hmaxb)
-
-/-- **HalfSpace, posed form (`cast_ray_and_get_normal`), solid.** -/
-theorem halfspace_posed_solid_firstHit (s : HalfSpace3 K) (m : Iso3 K) (ray : Ray3 K) (max : K) (hmax : 0 ≤ max) :
-    letI := fieldNum K sq
-    FirstHit (fun p => s.Mem (m.invAct p)) (rayPt sq ray) max ((s.castRayAndGetNormal m ray max true).map (·.toi)) := by
-  have h := halfspace_cast_solid_firstHit sq s (@Ray3.invTransform K (fieldNum K sq) ray m) max hmax
-  have e : (@HalfSpace3.castRayAndGetNormal K (fieldNum K sq) s m ray max true).map (·.toi)
-      = (@HalfSpace3.castLocalRayAndGetNormal K (fieldNum K sq) s (@Ray3.invTransform K (fieldNum K sq) ray m) max true).map (·.toi) := by
-    simp only [HalfSpace3.castRayAndGetNormal, Option.map_map]; rfl
-  rw [e]
-  exact (firstHit_posed sq _ m ray max _).1 h
-
-/-- **`toi_units`, 2-D segment (crossing branch)**: if both `(o,d)` and `(o, l·d)` are in the regime where the code does
-not declare the lines parallel, the second time is the first divided by `l`.  (The regime itself is *not* scale invariant
-— the code's threshold is absolute — which is the KNOWN_FINDINGS entry for the 2-D segment.) -/
-theorem segment2_toi_units (s : Segment2 K) (ray : Ray2 K) (l max : K) (solid : Bool) (hl : 0 < l) :
-    letI := fieldNum K sq
-    letI := fieldUlps K
-    epsK K < ray.d.normSq → epsK K < (ray.d.smul l).normSq → epsK K < (s.b.sub s.a).normSq →
-    epsK K < ray.d.normSq * (s.b.sub s.a).normSq - ray.d.dot (s.b.sub s.a) * ray.d.dot (s.b.sub s.a) →
-    epsK K < (ray.d.smul l).normSq * (s.b.sub s.a).normSq - (ray.d.smul l).dot (s.b.sub s.a) * (ray.d.smul l).dot (s.b.sub s.a) →
-    (s.castLocalRayAndGetNormal ⟨ray.o, ray.d.smul l⟩ (max / l) solid).map (·.toi)
-      = ((s.castLocalRayAndGetNormal ray max solid).map (·.toi)).map (· / l) := by
-  intro h1 h2 h3 h4 h5
-  have a := segment2_cast_nonparallel_firstHit sq s ray max solid h1 h3 h4
-  have b := segment2_cast_nonparallel_firstHit sq s ⟨ray.o, @V2.smul K (fieldNum K sq) ray.d l⟩ (max / l) solid h2 h3 h5
-  have e : rayPt2 sq ⟨ray.o, @V2.smul K (fieldNum K sq) ray.d l⟩ = fun u => rayPt2 sq ray (l * u) := by
-    funext u; exact rayPt2_scale sq ray l u
-  rw [e] at b
-  exact firstHit_unique _ _ _ _ _ b (firstHit_scale _ (rayPt2 sq ray) max l hl _ a)
-
-
-end C04
